@@ -1,6 +1,12 @@
 (* The Go JSON parser model (Json/Parse.v) against the RFC 8259 reference
-   decoder (Json/Spec.v): the lexical / arithmetic core of property C04. *)
-From SF Require Import Base.Prelude Base.PreludeProofs Base.Utf8 Core.Events Core.EventsProofs
+   decoder (Json/Spec.v): property C04.
+   Part 1  integers: parse_uint_exact, report_number_nonneg/_neg/_int/_float
+   Part 2  strings:  unquote_spec(_fuel)  (unquote = json_unescape on string bodies)
+   Part 3  whitespace: is_ws_is_space, is_ws_is_stop, trim_left_skip_ws
+   Part 4  documents: sim_all (the step machine simulates json_ref),
+           C04_accept_events, C04_accept, C04_number, C04_accept_stream.
+   Depends on Core/AdapterProofs.v for [norm] and [stream_tree_flatten]. *)
+From SF Require Import Base.Prelude Base.PreludeProofs Base.Utf8 Core.Events Core.EventsProofs Core.AdapterProofs
   Json.Parse Json.Spec.
 From Coq Require Import ZifyBool ZifyNat ZifyN.
 Open Scope Z_scope.
@@ -475,13 +481,14 @@ Proof.
 Qed.
 
 (* C04, strings: on every string body of the RFC grammar the Go unquote
-   returns the reference unescaping *)
-Theorem unquote_spec s out : json_unescape s = Some out -> unquote s = UQ out.
+   returns the reference unescaping (stated for any fuel of the reference
+   loop, then for json_unescape itself) *)
+Theorem unquote_spec_fuel fu s out : json_unescape_loop fu s = Some out -> unquote s = UQ out.
 Proof.
-  unfold json_unescape, unquote. intro Hu.
+  unfold unquote. intro Hu.
   destruct (plain_prefix_spec (length s) s) as [Li Pi].
   set (i := plain_prefix (length s) s) in *.
-  rewrite <- (firstn_skipn i s) in Hu at 2.
+  rewrite <- (firstn_skipn i s) in Hu.
   destruct (unescape_plain_prefix _ _ _ _ Pi Hu) as (fu' & t & Ht & Eout).
   destruct (Nat.eqb i (length s)) eqn:E.
   - apply Nat.eqb_eq in E. rewrite E, skipn_all in Ht. apply unescape_nil in Ht. subst t.
@@ -489,6 +496,10 @@ Proof.
   - rewrite (unquote_loop_spec _ _ _ fu' t Ht) by (rewrite skipn_length; lia).
     rewrite rev_involutive, Eout. reflexivity.
 Qed.
+
+Theorem unquote_spec s out : json_unescape s = Some out -> unquote s = UQ out.
+Proof. apply unquote_spec_fuel. Qed.
+Print Assumptions unquote_spec_fuel.
 Print Assumptions unquote_spec.
 
 (* ====================================================================== *)
@@ -514,3 +525,1454 @@ Proof.
   - reflexivity.
 Qed.
 Print Assumptions trim_left_skip_ws.
+
+(* ====================================================================== *)
+(* Part 4: the parser run against json_ref                                 *)
+(* ====================================================================== *)
+
+(* ---------- 4.0 recording sinks that never fail ---------- *)
+Definition sapp (s : sink) (evs : list event) : sink :=
+  {| s_rlog := rev evs ++ s_rlog s; s_n := (length evs + s_n s)%nat; s_fail := s_fail s |}.
+
+Lemma sapp_fail s evs : s_fail (sapp s evs) = s_fail s.
+Proof. reflexivity. Qed.
+
+Lemma sapp_nil s : sapp s [] = s.
+Proof. destruct s. reflexivity. Qed.
+
+Lemma sapp_app s a b : sapp (sapp s a) b = sapp s (a ++ b).
+Proof.
+  unfold sapp. cbn [s_rlog s_n s_fail]. f_equal.
+  - rewrite rev_app_distr, app_assoc. reflexivity.
+  - rewrite app_length. lia.
+Qed.
+
+Lemma sapp_log s evs : s_log (sapp s evs) = s_log s ++ evs.
+Proof. unfold s_log, sapp. cbn [s_rlog]. rewrite rev_app_distr, rev_involutive. reflexivity. Qed.
+
+Lemma jvis_ok s e : s_fail s = None -> jvis s e = (sapp s [e], jpnil).
+Proof. intro H. unfold jvis, emit, sapp. rewrite H. reflexivity. Qed.
+
+(* ---------- 4.1 runs of the step function ---------- *)
+Definition bonus (p : jparser) : nat :=
+  if (jp_cur p =? jDict) || (jp_cur p =? jDictNextField) || (jp_cur p =? jArr) then 1 else 0.
+Definition mu (p : jparser) (b : bytes) : nat := (2 * length b + bonus p)%nat.
+
+Lemma bonus_le p : (bonus p <= 1)%nat.
+Proof. unfold bonus. destruct (_ || _); lia. Qed.
+
+Inductive jsteps (pf : bytes -> option Z) : jparser -> sink -> bytes -> jparser -> sink -> bytes -> Prop :=
+| jsteps_refl p s b : jsteps pf p s b p s b
+| jsteps_step p s b p1 s1 b1 rep p2 s2 b2 :
+    b <> [] -> (jp_cur p =? jFailed) = false ->
+    jstep pf p s b = JS p1 s1 b1 rep jpnil ->
+    (mu p1 b1 < mu p b)%nat ->
+    jsteps pf p1 s1 b1 p2 s2 b2 -> jsteps pf p s b p2 s2 b2.
+
+Lemma jsteps_trans pf p s b p1 s1 b1 p2 s2 b2 :
+  jsteps pf p s b p1 s1 b1 -> jsteps pf p1 s1 b1 p2 s2 b2 -> jsteps pf p s b p2 s2 b2.
+Proof.
+  induction 1 as [|p s b pa sa ba rep pb sb bb Hne Hnf Hst Hmu Hrest IH]; intro H2; [exact H2|].
+  eapply jsteps_step; eauto.
+Qed.
+
+Lemma jsteps_one pf p s b p1 s1 b1 rep :
+  b <> [] -> (jp_cur p =? jFailed) = false ->
+  jstep pf p s b = JS p1 s1 b1 rep jpnil -> (mu p1 b1 < mu p b)%nat ->
+  jsteps pf p s b p1 s1 b1.
+Proof. intros. eapply jsteps_step; eauto. apply jsteps_refl. Qed.
+
+Lemma zlen_nil_iff {A} (l : list A) : (zlen l =? 0) = true <-> l = [].
+Proof. unfold zlen. destruct l; cbn [length]; split; intro H; try reflexivity; try discriminate; lia. Qed.
+
+Lemma zlen_pos_false {A} (l : list A) : l <> [] -> (zlen l =? 0) = false.
+Proof. intro H. destruct (zlen l =? 0) eqn:E; [|reflexivity]. apply zlen_nil_iff in E. contradiction. Qed.
+
+(* feedUntil follows a run until it returns *)
+Lemma jfeed_until_steps pf p' s' orig : forall G p s b,
+  jsteps pf p s b p' s' [] -> (mu p b < G)%nat -> b <> [] ->
+  exists p1 s1 b1 rep,
+    jfeed_until G pf p s b orig = Ok (JS p1 s1 b1 rep jpnil) /\
+    jsteps pf p1 s1 b1 p' s' [] /\ (mu p1 b1 < mu p b)%nat.
+Proof.
+  induction G as [|G IH]; intros p s b Hrun HG Hne; [lia|].
+  inversion Hrun as [|p0 s0 b0 p1 s1 b1 rep p2 s2 b2 Hne' Hnf Hst Hmu Hrest]; subst; [congruence|].
+  cbn [jfeed_until]. rewrite (zlen_pos_false _ Hne), Hst, Hnf.
+  change (negb (jisnil jpnil)) with false. cbv iota.
+  destruct (rep && (zlen (jp_states p1) =? 0)) eqn:R.
+  - exists p1, s1, b1, true. auto.
+  - destruct b1 as [|c1 r1].
+    + destruct G as [|G]; [lia|]. exists p1, s1, [], false. cbn [jfeed_until]. auto.
+    + destruct (IH p1 s1 (c1 :: r1) Hrest ltac:(lia) ltac:(discriminate)) as (pa & sa & ba & ra & E & Hr & Hm).
+      exists pa, sa, ba, ra. split; [exact E|]. split; [exact Hr|lia].
+Qed.
+
+Lemma jsteps_nil_inv pf p s p' s' b' : jsteps pf p s [] p' s' b' -> p' = p /\ s' = s /\ b' = [].
+Proof. intro H. inversion H; subst; [auto|congruence]. Qed.
+
+Lemma jfeed_steps pf p' s' : forall F p s b,
+  jsteps pf p s b p' s' [] -> (mu p b < F)%nat ->
+  jfeed F pf p s b = Ok (p', s', jpnil).
+Proof.
+  induction F as [|F IH]; intros p s b Hrun HF; [lia|].
+  cbn [jfeed]. destruct b as [|c r].
+  - apply jsteps_nil_inv in Hrun. destruct Hrun as (-> & -> & _). reflexivity.
+  - replace (zlen (c :: r) >? 0) with true by (unfold zlen; cbn [length]; lia).
+    assert (HG : (mu p (c :: r) < jfeed_fuel (c :: r))%nat).
+    { unfold mu, jfeed_fuel. pose proof (bonus_le p). lia. }
+    destruct (jfeed_until_steps pf p' s' (c :: r) _ p s (c :: r) Hrun HG ltac:(discriminate))
+      as (p1 & s1 & b1 & rep & E & Hr & Hm).
+    rewrite E. change (jisnil jpnil) with true. cbv iota.
+    apply IH; [exact Hr|lia].
+Qed.
+
+(* Parser.Parse on a fresh parser *)
+Lemma jrun_parse_steps pf b p' s' :
+  jsteps pf jparser0 (sink0 None) b p' s' [] ->
+  jrun_parse pf None b =
+  match with_final pf p' s' with
+  | Ok (p, s, err) => Ok (s_log s, err, p)
+  | Err e => Err e | Panic w => Panic w | OutOfFuel => OutOfFuel
+  end.
+Proof.
+  intro H. unfold jrun_parse, jp_parse.
+  change (jset_cur (jset_lit {| jp_cur := jp_cur jparser0; jp_states := []; jp_lit := jp_lit jparser0;
+            jp_inesc := jp_inesc jparser0; jp_isdbl := jp_isdbl jparser0; jp_req := jp_req jparser0;
+            jp_err := jp_err jparser0 |} []) jStart) with jparser0.
+  rewrite (jfeed_steps pf p' s' _ _ _ _ H) by (unfold mu, bonus; cbn; lia).
+  change (jisnil jpnil) with true. cbv iota. reflexivity.
+Qed.
+
+(* ---------- 4.2 list helpers ---------- *)
+Lemma skipn_app_len {A} (a l : list A) k : skipn (length a + k) (a ++ l) = skipn k l.
+Proof. induction a as [|x a IH]; [reflexivity|]. cbn [length Nat.add app skipn]. exact IH. Qed.
+
+Lemma firstn_app_len {A} (a l : list A) k : firstn (length a + k) (a ++ l) = a ++ firstn k l.
+Proof. induction a as [|x a IH]; [reflexivity|]. cbn [length Nat.add app firstn]. rewrite IH. reflexivity. Qed.
+
+Lemma all_bytes_app a b : all_bytes (a ++ b) = all_bytes a && all_bytes b.
+Proof. apply forallb_app. Qed.
+
+Lemma all_bytes_rev l : all_bytes (rev l) = all_bytes l.
+Proof.
+  induction l as [|x l IH]; [reflexivity|].
+  cbn [rev]. rewrite all_bytes_app, IH. cbn [all_bytes forallb]. rewrite andb_true_r. apply andb_comm.
+Qed.
+
+(* ---------- 4.3 strings: the reference lexer finds the token the parser finds ---------- *)
+Definition skippable (l : bytes) : Prop :=
+  forall x i, scan_quote (l ++ x) false i = scan_quote x false (i + length l)%nat.
+
+Lemma skippable_nil : skippable [].
+Proof. intros x i. cbn [app length]. rewrite Nat.add_0_r. reflexivity. Qed.
+
+Lemma skippable_app a b : skippable a -> skippable b -> skippable (a ++ b).
+Proof.
+  intros Ha Hb x i. rewrite <- app_assoc, Ha, Hb, app_length. f_equal. lia.
+Qed.
+
+Lemma skippable_plain c : (c =? 34) = false -> (c =? 92) = false -> skippable [c].
+Proof.
+  intros H1 H2 x i. cbn [app scan_quote length]. rewrite H1, H2. f_equal. lia.
+Qed.
+
+Lemma skippable_esc x0 : skippable [92; x0].
+Proof.
+  intros x i. cbn [app scan_quote length]. change (92 =? 34) with false. change (92 =? 92) with true.
+  cbv iota. f_equal. lia.
+Qed.
+
+Lemma hexval_noq h v : hexval h = Some v -> (h =? 34) = false /\ (h =? 92) = false.
+Proof.
+  unfold hexval. destruct ((48 <=? h) && (h <=? 57)) eqn:E1; [lia|].
+  destruct ((97 <=? h) && (h <=? 102)) eqn:E2; [lia|].
+  destruct ((65 <=? h) && (h <=? 70)) eqn:E3; [lia|discriminate].
+Qed.
+
+Lemma hex4_inv l code r3 : hex4 l = HexOk code r3 ->
+  exists h1 h2 h3 h4, l = h1 :: h2 :: h3 :: h4 :: r3 /\
+    (forall x, hex4 (h1 :: h2 :: h3 :: h4 :: x) = HexOk code x) /\
+    skippable [h1; h2; h3; h4].
+Proof.
+  intro H. destruct l as [|h1 [|h2 [|h3 [|h4 r]]]];
+    try (unfold hex4 in H; destruct (forallb is_hex _); discriminate).
+  cbn [hex4] in H.
+  destruct (hexval h1) as [x1|] eqn:E1; [|discriminate].
+  destruct (hexval h2) as [x2|] eqn:E2; [|discriminate].
+  destruct (hexval h3) as [x3|] eqn:E3; [|discriminate].
+  destruct (hexval h4) as [x4|] eqn:E4; [|discriminate].
+  injection H as <- <-. exists h1, h2, h3, h4. split; [reflexivity|]. split.
+  - intro x. cbn [hex4]. rewrite E1, E2, E3, E4. reflexivity.
+  - destruct (hexval_noq _ _ E1), (hexval_noq _ _ E2), (hexval_noq _ _ E3), (hexval_noq _ _ E4).
+    change [h1; h2; h3; h4] with ([h1] ++ [h2] ++ [h3] ++ [h4]).
+    repeat apply skippable_app; apply skippable_plain; assumption.
+Qed.
+
+Lemma low_escape_inv r3 lo r4 : low_escape r3 = Some (lo, r4) ->
+  exists h1 h2 h3 h4, r3 = 92 :: 117 :: h1 :: h2 :: h3 :: h4 :: r4 /\
+    (forall x, low_escape (92 :: 117 :: h1 :: h2 :: h3 :: h4 :: x) = Some (lo, x)) /\
+    skippable [92; 117; h1; h2; h3; h4].
+Proof.
+  unfold low_escape. destruct r3 as [|c1 [|c2 l]]; try discriminate.
+  destruct ((c1 =? 92) && (c2 =? 117)) eqn:E; [|discriminate].
+  assert (c1 = 92) by lia. assert (c2 = 117) by lia. subst c1 c2.
+  destruct (hex4 l) as [lo' r'| |] eqn:EH; try discriminate.
+  destruct (is_low_surrogate lo') eqn:EL; [|discriminate]. intro H. injection H as <- <-.
+  destruct (hex4_inv _ _ _ EH) as (h1 & h2 & h3 & h4 & -> & Hx & Hs).
+  exists h1, h2, h3, h4. split; [reflexivity|]. split.
+  - intro x. cbn [andb]. change ((92 =? 92) && (117 =? 117)) with true. cbv iota. rewrite Hx, EL. reflexivity.
+  - change [92; 117; h1; h2; h3; h4] with ([92; 117] ++ [h1; h2; h3; h4]).
+    apply skippable_app; [apply skippable_esc|exact Hs].
+Qed.
+
+Lemma low_escape_none_app y z : low_escape (y ++ 34 :: z) = None -> low_escape y = None.
+Proof.
+  unfold low_escape. destruct y as [|c1 [|c2 l]]; try reflexivity.
+  cbn [app]. destruct ((c1 =? 92) && (c2 =? 117)); [|reflexivity].
+  destruct l as [|h1 [|h2 [|h3 [|h4 l]]]];
+    try (intros _; unfold hex4; destruct (forallb is_hex _); reflexivity).
+  cbn [app hex4].
+  destruct (hexval h1), (hexval h2), (hexval h3), (hexval h4); try reflexivity.
+  destruct (is_low_surrogate _); [discriminate|reflexivity].
+Qed.
+
+#[local] Opaque encode_rune.
+
+Lemma json_char_inv c r' o b' : json_char (c :: r') = ChOk o b' -> (c =? 34) = false ->
+  exists cons, c :: r' = cons ++ b' /\ cons <> [] /\ skippable cons /\
+    (forall body' rest, b' = body' ++ 34 :: rest -> json_char (cons ++ body') = ChOk o body').
+Proof.
+  intros H Hq. unfold json_char in H.
+  destruct (c =? 92) eqn:E92.
+  2:{ destruct ((c =? 34) || (c <? 32)) eqn:E2; [discriminate|]. injection H as <- <-.
+      exists [c]. split; [reflexivity|]. split; [discriminate|]. split; [apply skippable_plain; lia|].
+      intros body' rest _. cbn [app json_char]. rewrite E92, E2. reflexivity. }
+  assert (c = 92) by lia. subst c.
+  unfold json_escape in H. destruct r' as [|x r2]; [discriminate|].
+  assert (S1 : forall y, (x =? 117) = false -> json_escape (x :: r2) = ChOk [y] r2 ->
+     exists cons, 92 :: x :: r2 = cons ++ r2 /\ cons <> [] /\ skippable cons /\
+       (forall body' rest, r2 = body' ++ 34 :: rest -> json_char (cons ++ body') = ChOk [y] body')).
+  { intros y Hx Hy. exists [92; x]. split; [reflexivity|]. split; [discriminate|]. split; [apply skippable_esc|].
+    intros body' rest _. cbn [app json_char]. change (92 =? 92) with true. cbv iota.
+    unfold json_escape in *. 
+    destruct (x =? 34); [injection Hy as <-; reflexivity|].
+    destruct (x =? 92); [injection Hy as <-; reflexivity|].
+    destruct (x =? 47); [injection Hy as <-; reflexivity|].
+    destruct (x =? 98); [injection Hy as <-; reflexivity|].
+    destruct (x =? 102); [injection Hy as <-; reflexivity|].
+    destruct (x =? 110); [injection Hy as <-; reflexivity|].
+    destruct (x =? 114); [injection Hy as <-; reflexivity|].
+    destruct (x =? 116); [injection Hy as <-; reflexivity|].
+    rewrite Hx in Hy. discriminate. }
+  destruct (x =? 117) eqn:X9.
+  2:{ assert (HE : json_escape (x :: r2) = ChOk o b') by (unfold json_escape; rewrite X9; exact H).
+      clear H.
+      assert (exists y, o = [y] /\ b' = r2) as (y & -> & ->).
+      { unfold json_escape in HE. rewrite X9 in HE.
+        repeat match type of HE with
+               | (if ?c then _ else _) = _ => destruct c; [injection HE as <- <-; eexists; split; reflexivity|]
+               end. discriminate. }
+      apply (S1 y eq_refl HE). }
+  assert (x = 117) by lia. subst x.
+  replace (117 =? 34) with false in H by reflexivity. replace (117 =? 92) with false in H by reflexivity.
+  replace (117 =? 47) with false in H by reflexivity. replace (117 =? 98) with false in H by reflexivity.
+  replace (117 =? 102) with false in H by reflexivity. replace (117 =? 110) with false in H by reflexivity.
+  replace (117 =? 114) with false in H by reflexivity. replace (117 =? 116) with false in H by reflexivity.
+  replace (117 =? 117) with true in H by reflexivity.
+  destruct (hex4 r2) as [code r3| |] eqn:EH; try discriminate.
+  destruct (hex4_inv _ _ _ EH) as (h1 & h2 & h3 & h4 & -> & Hx & Hs).
+  assert (Hs6 : skippable [92; 117; h1; h2; h3; h4]).
+  { change [92; 117; h1; h2; h3; h4] with ([92; 117] ++ [h1; h2; h3; h4]).
+    apply skippable_app; [apply skippable_esc|exact Hs]. }
+  (* what json_char computes on the six bytes followed by y *)
+  assert (J : forall y, json_char (92 :: 117 :: h1 :: h2 :: h3 :: h4 :: y) =
+     if is_high_surrogate code then
+       match low_escape y with
+       | Some (lo, r4) => ChOk (encode_rune (utf16_decode code lo)) r4
+       | None => ChOk (encode_rune rune_error) y
+       end
+     else if is_low_surrogate code then ChOk (encode_rune rune_error) y
+     else ChOk (encode_rune code) y).
+  { intro y. cbn [json_char]. change (92 =? 92) with true. cbv iota. cbn [json_escape].
+    change (117 =? 34) with false. change (117 =? 92) with false. change (117 =? 47) with false.
+    change (117 =? 98) with false. change (117 =? 102) with false. change (117 =? 110) with false.
+    change (117 =? 114) with false. change (117 =? 116) with false. change (117 =? 117) with true.
+    cbv iota. rewrite Hx. reflexivity. }
+  destruct (is_high_surrogate code) eqn:Hh.
+  - destruct (low_escape r3) as [[lo r4]|] eqn:EL.
+    + injection H as <- <-.
+      destruct (low_escape_inv _ _ _ EL) as (l1 & l2 & l3 & l4 & -> & Hlx & Hls).
+      exists ([92; 117; h1; h2; h3; h4] ++ [92; 117; l1; l2; l3; l4]).
+      split; [reflexivity|]. split; [discriminate|]. split; [apply skippable_app; assumption|].
+      intros body' rest _. cbn [app]. rewrite J, Hlx. reflexivity.
+    + injection H as <- <-.
+      exists [92; 117; h1; h2; h3; h4]. split; [reflexivity|]. split; [discriminate|]. split; [exact Hs6|].
+      intros body' rest ->. cbn [app]. rewrite J. rewrite (low_escape_none_app _ _ EL). reflexivity.
+  - exists [92; 117; h1; h2; h3; h4].
+    destruct (is_low_surrogate code) eqn:Hlo; injection H as <- <-;
+      (split; [reflexivity|]; split; [discriminate|]; split; [exact Hs6|];
+       intros body' rest _; cbn [app]; rewrite J; try rewrite Hlo; reflexivity).
+Qed.
+
+Lemma json_string_inv f : forall b racc out rest,
+  json_string_loop f b racc = StrOk out rest ->
+  exists body t fu, b = body ++ 34 :: rest /\ out = rev racc ++ t /\
+    json_unescape_loop fu body = Some t /\
+    forall i, scan_quote b false i = (Some (i + length body)%nat, false).
+Proof.
+  induction f as [|f IH]; intros b racc out rest H; [discriminate|].
+  destruct b as [|c r']; [discriminate|]. cbn [json_string_loop] in H.
+  destruct (c =? 34) eqn:Eq.
+  - injection H as <- <-. assert (c = 34) by lia. subst c.
+    exists [], [], 1%nat. split; [reflexivity|]. split; [rewrite app_nil_r; reflexivity|].
+    split; [reflexivity|]. intro i. cbn [scan_quote length]. change (34 =? 34) with true.
+    rewrite Nat.add_0_r. reflexivity.
+  - destruct (json_char (c :: r')) as [o b'| |] eqn:EC; try discriminate.
+    destruct (IH _ _ _ _ H) as (body' & t' & fu' & Eb & Eo & Hu & Hs).
+    destruct (json_char_inv _ _ _ _ EC Eq) as (cons & Ec & Hne & Hsk & Hloc).
+    exists (cons ++ body'), (o ++ t'), (S fu').
+    split; [rewrite Ec, Eb, app_assoc; reflexivity|].
+    split; [rewrite Eo, rev_app_distr, rev_involutive, app_assoc; reflexivity|].
+    split.
+    + destruct cons as [|c0 cons']; [congruence|]. injection Ec as <- _.
+      cbn [app json_unescape_loop]. rewrite Eq.
+      change (c :: cons' ++ body') with ((c :: cons') ++ body').
+      rewrite (Hloc body' rest Eb), Hu. reflexivity.
+    + intro i. rewrite Ec, Hsk, Hs, app_length. f_equal. f_equal. lia.
+Qed.
+
+(* bytes in, bytes out *)
+Lemma encode_rune_bytes r : all_bytes (encode_rune r) = true.
+Proof.
+  Transparent encode_rune.
+  unfold encode_rune.
+  set (r' := if (r <? 0) || (1114111 <? r) || is_surrogate r then rune_error else r).
+  assert (0 <= r' <= 1114111).
+  { subst r'. unfold rune_error. destruct ((r <? 0) || (1114111 <? r) || is_surrogate r) eqn:E; lia. }
+  unfold all_bytes, is_byte.
+  destruct (r' <=? 127) eqn:E1; [cbn [forallb]; lia|].
+  destruct (r' <=? 2047) eqn:E2; [cbn [forallb]; lia|].
+  destruct (r' <=? 65535) eqn:E3; cbn [forallb]; lia.
+  Opaque encode_rune.
+Qed.
+
+Lemma json_char_bytes b o b' : json_char b = ChOk o b' -> all_bytes b = true ->
+  all_bytes o = true /\ all_bytes b' = true.
+Proof.
+  intros H Hb. destruct b as [|c r]; [discriminate|].
+  destruct (c =? 34) eqn:Eq.
+  { unfold json_char in H. destruct (c =? 92) eqn:E; [lia|]. rewrite Eq in H. discriminate. }
+  destruct (json_char_inv _ _ _ _ H Eq) as (cons & Ec & _ & _ & _).
+  pose proof Hb as Hb0. cbn [all_bytes forallb] in Hb0. apply andb_prop in Hb0. destruct Hb0 as [Hc0 _].
+  rewrite Ec, all_bytes_app in Hb. apply andb_prop in Hb. destruct Hb as [Hc Hb']. split; [|exact Hb'].
+  unfold json_char in H. destruct (c =? 92) eqn:E92.
+  2:{ destruct ((c =? 34) || (c <? 32)); [discriminate|]. injection H as <- _.
+      cbn [all_bytes forallb]. rewrite Hc0. reflexivity. }
+  unfold json_escape in H. destruct r as [|x r2]; [discriminate|].
+  repeat match type of H with
+         | (if ?c then ChOk [_] _ else _) = _ => destruct c; [injection H as <- _; reflexivity|]
+         end.
+  destruct (x =? 117); [|discriminate].
+  destruct (hex4 r2) as [code r3| |]; try discriminate.
+  destruct (is_high_surrogate code).
+  - destruct (low_escape r3) as [[lo r4]|]; injection H as <- _; apply encode_rune_bytes.
+  - destruct (is_low_surrogate code); injection H as <- _; apply encode_rune_bytes.
+Qed.
+
+Lemma json_string_bytes f : forall b racc out rest,
+  json_string_loop f b racc = StrOk out rest -> all_bytes b = true -> all_bytes racc = true ->
+  all_bytes out = true /\ all_bytes rest = true.
+Proof.
+  induction f as [|f IH]; intros b racc out rest H Hb Ha; [discriminate|].
+  destruct b as [|c r']; [discriminate|]. cbn [json_string_loop] in H.
+  destruct (c =? 34).
+  - injection H as <- <-. cbn [all_bytes forallb] in Hb. apply andb_prop in Hb. destruct Hb as [_ Hb].
+    split; [|exact Hb]. rewrite all_bytes_rev. exact Ha.
+  - destruct (json_char (c :: r')) as [o b'| |] eqn:EC; try discriminate.
+    destruct (json_char_bytes _ _ _ EC Hb) as [Ho Hb'].
+    apply (IH _ _ _ _ H Hb'). rewrite all_bytes_app, all_bytes_rev, Ho, Ha. reflexivity.
+Qed.
+
+(* doString on a complete string token *)
+Lemma do_string_ok p body rest out : jp_lit p = [] -> jp_inesc p = false ->
+  (forall i, scan_quote (body ++ 34 :: rest) false i = (Some (i + length body)%nat, false)) ->
+  unquote body = UQ out ->
+  do_string p (34 :: body ++ 34 :: rest) = DSDone (jset_lit (jset_inesc p false) []) out rest.
+Proof.
+  intros Hl Hi Hs Hu. unfold do_string. rewrite Hl. change (zlen (@nil Z) =? 0) with true. cbv iota.
+  rewrite Hi, Hs. cbn [Nat.add]. cbn [jp_lit jset_inesc]. rewrite Hl. cbn [app].
+  replace (length body + 2)%nat with (length (34%Z :: body) + 1)%nat by (cbn [length]; lia).
+  change (34 :: body ++ 34 :: rest) with ((34 :: body) ++ 34 :: rest).
+  rewrite firstn_app_len, skipn_app_len. cbn [firstn skipn].
+  replace (zlen ((34 :: body) ++ [34]) <? 2) with false
+    by (unfold zlen; rewrite app_length; cbn [length]; lia).
+  change ((34 :: body) ++ [34]) with (34 :: (body ++ [34])). cbn [length]. rewrite app_length. cbn [length].
+  replace (S (length body + 1) - 2)%nat with (length body + 0)%nat by lia.
+  rewrite firstn_app_len. cbn [firstn]. rewrite app_nil_r, Hu. reflexivity.
+Qed.
+
+(* ---------- 4.4 numbers: the reference lexer finds the token the parser finds ---------- *)
+Definition nostop (l : bytes) : bool := forallb (fun c => negb (is_stop c)) l.
+Definition has_de (l : bytes) : bool := existsb (fun c => (c =? 46) || (c =? 101) || (c =? 69)) l.
+
+Lemma nostop_app a b : nostop (a ++ b) = nostop a && nostop b.
+Proof. apply forallb_app. Qed.
+Lemma has_de_app a b : has_de (a ++ b) = has_de a || has_de b.
+Proof. apply existsb_app. Qed.
+
+Lemma scan_number_app l : forall rest dbl i, nostop l = true ->
+  scan_number (l ++ rest) dbl i = scan_number rest (dbl || has_de l) (i + length l)%nat.
+Proof.
+  induction l as [|c l IH]; intros rest dbl i H.
+  - cbn [app has_de existsb length]. rewrite orb_false_r, Nat.add_0_r. reflexivity.
+  - cbn [nostop forallb] in H. apply andb_prop in H. destruct H as [Hc Hl].
+    cbn [app scan_number]. destruct (is_stop c); [discriminate|].
+    rewrite (IH _ _ _ Hl). cbn [has_de existsb length]. f_equal; [|lia].
+    fold (has_de l). destruct dbl, (c =? 46), (c =? 101), (c =? 69), (has_de l); reflexivity.
+Qed.
+
+Lemma scan_number_nil dbl i : scan_number [] dbl i = (None, dbl).
+Proof. reflexivity. Qed.
+
+Lemma scan_number_stop c r dbl i : is_stop c = true -> scan_number (c :: r) dbl i = (Some i, dbl).
+Proof. intro H. cbn [scan_number]. rewrite H. reflexivity. Qed.
+
+Lemma span_digits_inv b : forall ds r, span_digits b = (ds, r) -> b = ds ++ r /\ all_digits ds = true.
+Proof.
+  induction b as [|c b IH]; intros ds r H.
+  - injection H as <- <-. split; reflexivity.
+  - cbn [span_digits] in H. destruct (is_dig c) eqn:E.
+    + destruct (span_digits b) as [ds' r'] eqn:ES. injection H as <- <-.
+      destruct (IH _ _ eq_refl) as [-> Hd]. split; [reflexivity|].
+      cbn [all_digits forallb]. rewrite E. exact Hd.
+    + injection H as <- <-. split; reflexivity.
+Qed.
+
+Lemma digits_nostop ds : all_digits ds = true -> nostop ds = true /\ has_de ds = false.
+Proof.
+  induction ds as [|c ds IH]; intro H; [split; reflexivity|].
+  cbn [all_digits forallb] in H. apply andb_prop in H. destruct H as [Hc Hd].
+  destruct (IH Hd) as [H1 H2]. apply is_dig_range in Hc.
+  cbn [nostop forallb has_de existsb]. fold (nostop ds). fold (has_de ds). rewrite H1, H2.
+  unfold is_stop. split; lia.
+Qed.
+
+Lemma lex_int_inv b i b2 : lex_int b = POk i b2 -> b = i ++ b2 /\ i <> [] /\ all_digits i = true.
+Proof.
+  unfold lex_int. destruct b as [|c r]; [discriminate|].
+  destruct (c =? 48) eqn:E0.
+  - intro H. injection H as <- <-. assert (c = 48) by lia. subst c.
+    split; [reflexivity|]. split; [discriminate|reflexivity].
+  - destruct ((49 <=? c) && (c <=? 57)) eqn:E1; [|discriminate].
+    destruct (span_digits r) as [ds r'] eqn:ES. intro H. injection H as <- <-.
+    destruct (span_digits_inv _ _ _ ES) as [-> Hd].
+    split; [reflexivity|]. split; [discriminate|].
+    cbn [all_digits forallb]. fold (all_digits ds). rewrite Hd. unfold is_dig. lia.
+Qed.
+
+Lemma lex_digits1_inv b ds r : lex_digits1 b = POk ds r -> b = ds ++ r /\ all_digits ds = true.
+Proof.
+  unfold lex_digits1. destruct (span_digits b) as [ds' r'] eqn:ES.
+  destruct (span_digits_inv _ _ _ ES) as [-> Hd].
+  destruct ds' as [|d ds']; [destruct r'; discriminate|].
+  intro H. injection H as <- <-. split; [reflexivity|exact Hd].
+Qed.
+
+Lemma lex_frac_inv b fr b3 : lex_frac b = POk fr b3 ->
+  b = fr ++ b3 /\ nostop fr = true /\ has_de fr = negb (is_nil fr).
+Proof.
+  unfold lex_frac. destruct b as [|c r].
+  - intro H. injection H as <- <-. repeat split.
+  - destruct (c =? 46) eqn:E.
+    + destruct (lex_digits1 r) as [ds r'| |] eqn:EL; try discriminate.
+      intro H. injection H as <- <-. destruct (lex_digits1_inv _ _ _ EL) as [-> Hd].
+      destruct (digits_nostop _ Hd) as [H1 H2].
+      split; [reflexivity|]. cbn [nostop forallb has_de existsb is_nil negb].
+      fold (nostop ds). rewrite H1, E. unfold is_stop. split; [lia|reflexivity].
+    + intro H. injection H as <- <-. repeat split.
+Qed.
+
+Lemma lex_exp_inv b ex b4 : lex_exp b = POk ex b4 ->
+  b = ex ++ b4 /\ nostop ex = true /\ has_de ex = negb (is_nil ex).
+Proof.
+  unfold lex_exp. destruct b as [|c r].
+  - intro H. injection H as <- <-. repeat split.
+  - destruct ((c =? 101) || (c =? 69)) eqn:E.
+    + assert (Hsg : exists sg r1, (match r with
+                      | x :: r' => if (x =? 43) || (x =? 45) then ([x], r') else ([], r)
+                      | [] => ([], r) end) = (sg, r1) /\ r = sg ++ r1 /\ nostop sg = true /\ has_de sg = false).
+      { destruct r as [|x r']; [exists [], []; repeat split|].
+        destruct ((x =? 43) || (x =? 45)) eqn:Ex.
+        - exists [x], r'. split; [reflexivity|]. split; [reflexivity|].
+          cbn [nostop forallb has_de existsb]. unfold is_stop. split; lia.
+        - exists [], (x :: r'). repeat split. }
+      destruct Hsg as (sg & r1 & -> & -> & Hn & Hde).
+      destruct (lex_digits1 r1) as [ds r'| |] eqn:EL; try discriminate.
+      intro H. injection H as <- <-. destruct (lex_digits1_inv _ _ _ EL) as [-> Hd].
+      destruct (digits_nostop _ Hd) as [H1 H2].
+      split; [cbn [app]; rewrite <- app_assoc; reflexivity|].
+      change (c :: sg ++ ds) with ([c] ++ sg ++ ds).
+      rewrite !nostop_app, !has_de_app, Hn, H1, Hde, H2.
+      cbn [nostop forallb has_de existsb is_nil negb app]. unfold is_stop. split; lia.
+    + intro H. injection H as <- <-. repeat split.
+Qed.
+
+Lemma json_number_inv b lit isint rest : json_number b = NumOk lit isint rest ->
+  b = lit ++ rest /\ nostop lit = true /\ has_de lit = negb isint /\
+  (isint = true -> exists ds, ds <> [] /\ all_digits ds = true /\ (lit = ds \/ lit = 45 :: ds)).
+Proof.
+  unfold json_number.
+  assert (Hsg : exists sg b1, (match b with
+                      | c :: r => if c =? 45 then ([c], r) else ([], b)
+                      | [] => ([], b) end) = (sg, b1) /\ b = sg ++ b1 /\ (sg = [] \/ sg = [45])).
+  { destruct b as [|c r]; [exists [], []; repeat split; left; reflexivity|].
+    destruct (c =? 45) eqn:E.
+    - assert (c = 45) by lia. subst c. exists [45], r. repeat split. right; reflexivity.
+    - exists [], (c :: r). repeat split. left; reflexivity. }
+  destruct Hsg as (sg & b1 & -> & -> & Hsg).
+  destruct (lex_int b1) as [i b2| |] eqn:E1; try discriminate.
+  destruct (lex_frac b2) as [fr b3| |] eqn:E2; try discriminate.
+  destruct (lex_exp b3) as [ex b4| |] eqn:E3; try discriminate.
+  intro H. injection H as <- <- <-.
+  destruct (lex_int_inv _ _ _ E1) as (-> & Hine & Hid).
+  destruct (lex_frac_inv _ _ _ E2) as (-> & Hfn & Hfd).
+  destruct (lex_exp_inv _ _ _ E3) as (-> & Hen & Hed).
+  destruct (digits_nostop _ Hid) as [Hin Hidd].
+  assert (Hsn : nostop sg = true /\ has_de sg = false) by (destruct Hsg as [-> | ->]; split; reflexivity).
+  destruct Hsn as [Hsn Hsd].
+  split; [rewrite <- !app_assoc; reflexivity|].
+  rewrite !nostop_app, !has_de_app, Hsn, Hin, Hfn, Hen, Hsd, Hidd, Hfd, Hed.
+  split; [reflexivity|]. split; [cbn [orb]; destruct (is_nil fr), (is_nil ex); reflexivity|].
+  intro Hint. apply andb_prop in Hint. destruct Hint as [Hf He].
+  destruct fr; [|discriminate]. destruct ex; [|discriminate]. rewrite !app_nil_r.
+  exists i. split; [exact Hine|]. split; [exact Hid|].
+  destruct Hsg as [-> | ->]; [left|right]; reflexivity.
+Qed.
+
+(* stepNumber on a complete literal followed by a stop byte *)
+Definition stop_next (rest : bytes) : bool := match rest with c :: _ => is_stop c | [] => false end.
+
+Lemma step_number_done pf p s lit rest : jp_lit p = [] -> jp_isdbl p = false ->
+  nostop lit = true -> stop_next rest = true ->
+  step_number pf p s (lit ++ rest) =
+  match report_number pf s lit (has_de lit) with
+  | None => JCrash 4
+  | Some (s1, e) => JS (jpop (jset_lit (jset_isdbl p (has_de lit)) [])) s1 rest true e
+  end.
+Proof.
+  intros Hl Hd Hn Hs. unfold step_number. rewrite Hd, (scan_number_app _ _ _ _ Hn).
+  destruct rest as [|c r]; [discriminate|]. cbn [stop_next] in Hs.
+  rewrite (scan_number_stop _ _ _ _ Hs). cbn [orb Nat.add].
+  cbn [jp_lit jset_isdbl]. rewrite Hl. cbn [app].
+  replace (length lit) with (length lit + 0)%nat by lia.
+  rewrite firstn_app_len, skipn_app_len. cbn [firstn skipn]. rewrite app_nil_r. reflexivity.
+Qed.
+
+(* ... and on a literal that runs to the end of the input *)
+Lemma step_number_eof pf p s lit : jp_lit p = [] -> jp_isdbl p = false -> nostop lit = true ->
+  step_number pf p s lit = JS (jset_lit (jset_isdbl p (has_de lit)) lit) s [] false jpnil.
+Proof.
+  intros Hl Hd Hn. unfold step_number. rewrite Hd.
+  rewrite <- (app_nil_r lit) at 1. rewrite (scan_number_app _ _ _ _ Hn), scan_number_nil. cbn [orb].
+  cbn [jp_lit jset_isdbl]. rewrite Hl. reflexivity.
+Qed.
+
+(* what reportNumber delivers for a literal of the grammar *)
+Lemma report_ok pf s lit isint n :
+  (forall l z, pf l = Some z -> in_u 64 z = true) ->
+  json_num_value pf lit isint = Some n -> s_fail s = None ->
+  (isint = true -> exists ds, ds <> [] /\ all_digits ds = true /\ (lit = ds \/ lit = 45 :: ds)) ->
+  exists k z, report_number pf s lit (negb isint) = Some (sapp s [EVal (SNum k z)], jpnil) /\
+              canon_num k z = n /\ nkind_ok k z = true.
+Proof.
+  intros Hpf Hv Hs Hshape. destruct isint; cbn [negb].
+  - rewrite (report_number_int pf s lit (Hshape eq_refl)). rewrite Hv.
+    unfold json_num_value in Hv.
+    destruct ((-9223372036854775808 <=? int_value lit) && (int_value lit <? 18446744073709551616)) eqn:E;
+      [|discriminate].
+    injection Hv as <-. unfold int_report. rewrite (jvis_ok _ _ Hs).
+    exists (int_kind (int_value lit)), (int_value lit). split; [reflexivity|].
+    unfold int_kind. destruct (int_value lit <? 9223372036854775808) eqn:E2.
+    + split; [reflexivity|]. unfold nkind_ok, in_s. change (2 ^ (64 - 1)) with 9223372036854775808. lia.
+    + split; [reflexivity|]. unfold nkind_ok, in_u. change (2 ^ 64) with 18446744073709551616. lia.
+  - rewrite report_number_float. rewrite Hv.
+    unfold json_num_value in Hv. destruct (pf lit) as [bits|] eqn:E; [|discriminate].
+    injection Hv as <-. rewrite (jvis_ok _ _ Hs).
+    exists KFloat64, bits. split; [reflexivity|]. split; [reflexivity|]. exact (Hpf _ _ E).
+Qed.
+
+(* ---------- 4.5 single steps of the parser ---------- *)
+Ltac jsimpl :=
+  cbn [jp_cur jp_states jp_lit jp_inesc jp_isdbl jp_req jp_err
+       jset_cur jset_lit jset_inesc jset_isdbl jset_req jset_err jpush jpop].
+
+(* evaluate comparisons of closed numbers *)
+Ltac zc :=
+  repeat match goal with
+         | |- context [?a =? ?b] =>
+             let v := eval vm_compute in (a =? b) in
+             match v with
+             | true => change (a =? b) with true
+             | false => change (a =? b) with false
+             end
+         end.
+
+Definition clean (p : jparser) : Prop := jp_lit p = [] /\ jp_inesc p = false.
+Definition after (p p' : jparser) (ret : Z) : Prop :=
+  jp_cur p' = ret /\ jp_states p' = jp_states p /\ clean p'.
+
+Definition vstate (p : jparser) (ret : Z) : Prop :=
+  (jp_cur p = jStart /\ ret = jStart) \/
+  (jp_cur p = jDictFieldValue /\ ret = jDictFieldStateEnd) \/
+  (jp_cur p = jArrValue /\ ret = jArrNext).
+
+Lemma vstate_ret p ret : vstate p ret -> (ret =? jFailed) = false.
+Proof. intros [[_ ->]|[[_ ->]|[_ ->]]]; reflexivity. Qed.
+
+Lemma vstate_cur p ret : vstate p ret -> (jp_cur p =? jFailed) = false.
+Proof. intros [[-> _]|[[-> _]|[-> _]]]; reflexivity. Qed.
+
+Lemma jstep_start pf p s b : jp_cur p = jStart -> jstep pf p s b = step_value pf p s b jStart.
+Proof. intro H. unfold jstep. rewrite H. reflexivity. Qed.
+Lemma jstep_dfv pf p s b : jp_cur p = jDictFieldValue ->
+  jstep pf p s b = step_value pf p s b jDictFieldStateEnd.
+Proof. intro H. unfold jstep. rewrite H. reflexivity. Qed.
+Lemma jstep_av pf p s b : jp_cur p = jArrValue ->
+  jstep pf p s b = match step_value pf p s b jArrNext with JS p1 s1 r _ e => JS p1 s1 r false e | x => x end.
+Proof. intro H. unfold jstep. rewrite H. reflexivity. Qed.
+Lemma jstep_arr pf p s b : jp_cur p = jArr -> jstep pf p s b = step_array p s b.
+Proof. intro H. unfold jstep. rewrite H. reflexivity. Qed.
+Lemma jstep_arrnext pf p s b : jp_cur p = jArrNext -> jstep pf p s b = step_arr_value_end p s b.
+Proof. intro H. unfold jstep. rewrite H. reflexivity. Qed.
+Lemma jstep_dict pf p s b : jp_cur p = jDict -> jstep pf p s b = step_dict p s b true.
+Proof. intro H. unfold jstep. rewrite H. reflexivity. Qed.
+Lemma jstep_dictnext pf p s b : jp_cur p = jDictNextField -> jstep pf p s b = step_dict p s b false.
+Proof. intro H. unfold jstep. rewrite H. reflexivity. Qed.
+Lemma jstep_dictfield pf p s b : jp_cur p = jDictField -> jstep pf p s b = step_dict_key p s b.
+Proof. intro H. unfold jstep. rewrite H. reflexivity. Qed.
+Lemma jstep_dictsep pf p s b : jp_cur p = jDictFieldValueSep ->
+  jstep pf p s b =
+  match trim_left b with
+  | [] => JS p s [] false jpnil
+  | x :: r => JS (jset_cur p jDictFieldValue) s r false (if x =? 58 then jpnil else jeGeneric)
+  end.
+Proof. intro H. unfold jstep. rewrite H. reflexivity. Qed.
+Lemma jstep_dictend pf p s b : jp_cur p = jDictFieldStateEnd -> jstep pf p s b = step_dict_value_end p s b.
+Proof. intro H. unfold jstep. rewrite H. reflexivity. Qed.
+
+Lemma mu_consume p p1 (b b1 : bytes) : (length b1 < length b)%nat -> (mu p1 b1 < mu p b)%nat.
+Proof. intro H. unfold mu. pose proof (bonus_le p1). lia. Qed.
+
+Lemma vstep pf p s b ret p1 s1 b1 rep : vstate p ret ->
+  step_value pf p s b ret = JS p1 s1 b1 rep jpnil -> (length b1 < length b)%nat ->
+  jsteps pf p s b p1 s1 b1.
+Proof.
+  intros Hv E Hl.
+  assert (Hne : b <> []) by (intro; subst b; cbn [length] in Hl; lia).
+  pose proof (vstate_cur _ _ Hv) as Hnf.
+  destruct Hv as [[H ->]|[[H ->]|[H ->]]].
+  - eapply jsteps_one; eauto. rewrite jstep_start, E by exact H. reflexivity. apply mu_consume; exact Hl.
+  - eapply jsteps_one; eauto. rewrite jstep_dfv, E by exact H. reflexivity. apply mu_consume; exact Hl.
+  - eapply jsteps_one; eauto. rewrite jstep_av, E by exact H. reflexivity. apply mu_consume; exact Hl.
+Qed.
+
+(* whitespace *)
+Lemma trim_left_length b : (length (trim_left b) <= length b)%nat.
+Proof.
+  induction b as [|c r IH]; [cbn; lia|]. cbn [trim_left]. destruct (is_space c); cbn [length] in *; lia.
+Qed.
+
+Lemma trim_left_head b c r : skip_ws b = c :: r -> is_space c = false -> trim_left b = c :: r.
+Proof. intros H Hc. rewrite trim_left_skip_ws, H. cbn [trim_left]. rewrite Hc. reflexivity. Qed.
+
+Lemma consume b pre rest : trim_left b = pre ++ rest -> pre <> [] -> (length rest < length b)%nat.
+Proof.
+  intros H Hp. pose proof (trim_left_length b) as L. rewrite H, app_length in L.
+  destruct pre; [congruence|]. cbn [length] in L. lia.
+Qed.
+
+Lemma skip_ws_bytes b : all_bytes b = true -> all_bytes (skip_ws b) = true.
+Proof.
+  induction b as [|c r IH]; intro H; [reflexivity|]. cbn [skip_ws].
+  destruct (is_ws c); [|exact H]. cbn [all_bytes forallb] in H. apply andb_prop in H. apply IH, H.
+Qed.
+
+Lemma skip_ws_stop r c r' : skip_ws r = c :: r' -> is_stop c = true -> stop_next r = true.
+Proof.
+  intros H Hc. destruct r as [|x r0]; [discriminate|]. cbn [skip_ws] in H. cbn [stop_next].
+  destruct (is_ws x) eqn:E; [apply is_ws_is_stop, E|]. injection H as -> _. exact Hc.
+Qed.
+
+Lemma match_lit_ok name : forall b rest, match_lit name b = LitOk rest -> b = name ++ rest.
+Proof.
+  induction name as [|x name IH]; intros b rest H.
+  - injection H as <-. reflexivity.
+  - destruct b as [|y b']; [discriminate|]. cbn [match_lit] in H.
+    destruct (x =? y) eqn:E; [|discriminate]. assert (x = y) by lia. subst y.
+    rewrite (IH _ _ H). reflexivity.
+Qed.
+
+Lemma has_prefix_app s : forall rest, has_prefix (s ++ rest) s = true.
+Proof. induction s as [|x s IH]; intro rest; [destruct rest; reflexivity|]. cbn [app has_prefix]. rewrite Z.eqb_refl, IH. reflexivity. Qed.
+
+Lemma step_kind_done p s kind ev tail rest :
+  0 <= jp_req p -> (Z.to_nat (jp_req p) <= length kind)%nat ->
+  tail = skipn (length kind - Z.to_nat (jp_req p)) kind -> s_fail s = None ->
+  step_kind p s (tail ++ rest) kind ev = JS (jpop p) (sapp s [ev]) rest true jpnil.
+Proof.
+  intros H0 H1 Ht Hs. unfold step_kind.
+  assert (Lt : length tail = Z.to_nat (jp_req p)) by (subst tail; rewrite skipn_length; lia).
+  replace ((jp_req p <? 0) || (zlen kind <? jp_req p)) with false by (unfold zlen; lia).
+  replace (zlen (tail ++ rest) <? jp_req p) with false by (unfold zlen; rewrite app_length; lia).
+  cbn [negb]. rewrite <- Ht.
+  rewrite <- Lt. rewrite firstn_all, has_prefix_app. cbn [negb].
+  replace (length tail) with (length tail + 0)%nat by lia. rewrite skipn_app_len. cbn [skipn].
+  rewrite (jvis_ok _ _ Hs). reflexivity.
+Qed.
+
+Lemma after_push_pop p ret q next : (ret =? jFailed) = false ->
+  jp_cur q = ret -> jp_states q = jp_states p -> 
+  forall q', jp_states q' = jp_states (jpush q next) -> jp_lit q' = [] -> jp_inesc q' = false ->
+  after p (jpop q') ret.
+Proof.
+  intros Hr Hc Hs q' Hs' Hl Hi. unfold after, clean, jpop. rewrite Hs'. cbn [jpush jp_states].
+  rewrite Hc, Hr. jsimpl. rewrite Hs. auto.
+Qed.
+
+(* step_value on each kind of token *)
+Section StepValue.
+  Variable pf : bytes -> option Z.
+  Variables (p : jparser) (s : sink) (b : bytes) (ret : Z).
+  Hypothesis Hret : (ret =? jFailed) = false.
+  Hypothesis Hs : s_fail s = None.
+  Hypothesis Hclean : clean p.
+
+  Lemma sv_arr r : trim_left b = 91 :: r ->
+    step_value pf p s b ret = JS (jpush (jset_cur p ret) jArr) (sapp s [EArrStart (-1) BAny]) r false jpnil.
+  Proof. intro H. unfold step_value. rewrite H. zc. cbv beta iota zeta. rewrite (jvis_ok _ _ Hs). reflexivity. Qed.
+
+  Lemma sv_obj r : trim_left b = 123 :: r ->
+    step_value pf p s b ret = JS (jpush (jset_cur p ret) jDict) (sapp s [EObjStart (-1) BAny]) r false jpnil.
+  Proof. intro H. unfold step_value. rewrite H. zc. cbv beta iota zeta. rewrite (jvis_ok _ _ Hs). reflexivity. Qed.
+
+  Lemma sv_null rest : trim_left b = kw_null ++ rest ->
+    exists p', step_value pf p s b ret = JS p' (sapp s [EVal SNil]) rest true jpnil /\ after p p' ret.
+  Proof.
+    intro H. unfold step_value. rewrite H. cbn [kw_null app]. zc. cbv beta iota zeta.
+    eexists. split.
+    - apply (step_kind_done _ s kNull (EVal SNil) [117; 108; 108] rest); jsimpl; [lia|vm_compute; lia|reflexivity|exact Hs].
+    - destruct Hclean. eapply after_push_pop with (q := jset_cur p ret) (next := jNull); try eassumption; try reflexivity; jsimpl; auto.
+  Qed.
+
+  Lemma sv_true rest : trim_left b = kw_true ++ rest ->
+    exists p', step_value pf p s b ret = JS p' (sapp s [EVal (SBool true)]) rest true jpnil /\ after p p' ret.
+  Proof.
+    intro H. unfold step_value. rewrite H. cbn [kw_true app]. zc. cbv beta iota zeta.
+    eexists. split.
+    - apply (step_kind_done _ s kTrue (EVal (SBool true)) [114; 117; 101] rest); jsimpl; [lia|vm_compute; lia|reflexivity|exact Hs].
+    - destruct Hclean. eapply after_push_pop with (q := jset_cur p ret) (next := jTrue); try eassumption; try reflexivity; jsimpl; auto.
+  Qed.
+
+  Lemma sv_false rest : trim_left b = kw_false ++ rest ->
+    exists p', step_value pf p s b ret = JS p' (sapp s [EVal (SBool false)]) rest true jpnil /\ after p p' ret.
+  Proof.
+    intro H. unfold step_value. rewrite H. cbn [kw_false app]. zc. cbv beta iota zeta.
+    eexists. split.
+    - apply (step_kind_done _ s kFalse (EVal (SBool false)) [97; 108; 115; 101] rest); jsimpl; [lia|vm_compute; lia|reflexivity|exact Hs].
+    - destruct Hclean. eapply after_push_pop with (q := jset_cur p ret) (next := jFalse); try eassumption; try reflexivity; jsimpl; auto.
+  Qed.
+
+  Lemma sv_str body rest out : trim_left b = 34 :: body ++ 34 :: rest ->
+    (forall i, scan_quote (body ++ 34 :: rest) false i = (Some (i + length body)%nat, false)) ->
+    unquote body = UQ out ->
+    exists p', step_value pf p s b ret = JS p' (sapp s [EStrRef out]) rest true jpnil /\ after p p' ret.
+  Proof.
+    intros H Hsc Hu. unfold step_value. rewrite H. zc. cbv beta iota zeta.
+    unfold step_string. rewrite (do_string_ok _ body rest out) by (jsimpl; auto).
+    rewrite (jvis_ok _ _ Hs). eexists. split; [reflexivity|].
+    eapply after_push_pop with (q := jset_lit (jset_cur p ret) []) (next := jString); try eassumption; try reflexivity.
+  Qed.
+
+  Lemma sv_num_head c r : trim_left b = c :: r -> (c =? 45) || is_dig c = true ->
+    step_value pf p s b ret =
+    step_number pf (jset_isdbl (jpush (jset_lit (jset_isdbl (jset_cur p ret) false) []) jNumber) false) s (c :: r).
+  Proof.
+    intros H Hc. unfold step_value. rewrite H. cbv beta iota zeta.
+    assert (Hx : (c =? 45) = true \/ 48 <= c <= 57) by (unfold is_dig in Hc; lia).
+    replace (c =? 123) with false by lia. replace (c =? 91) with false by lia.
+    replace (c =? 110) with false by lia. replace (c =? 102) with false by lia.
+    replace (c =? 116) with false by lia. replace (c =? 34) with false by lia.
+    replace ((c =? 45) || (c =? 43) || (c =? 46) || is_digit c) with true by (unfold is_digit; lia).
+    reflexivity.
+  Qed.
+End StepValue.
+
+(* ---------- 4.6 the simulation ---------- *)
+Definition good (t : tree) (v : cvalue) : Prop := cv (value_of t) = v /\ wf_tree t = true /\ norm t = t.
+Definition is_cnum (v : cvalue) : bool := match v with CNum _ => true | _ => false end.
+Definition tvals (ts : list tree) : list cvalue := map (fun t => cv (value_of t)) ts.
+Definition mvals (ms : list (bytes * bool * tree)) : list (bytes * cvalue) :=
+  map (fun m => (fst (fst m), cv (value_of (snd m)))) ms.
+
+Lemma forallb_const_true {A} (l : list A) : forallb (fun _ => true) l = true.
+Proof. induction l; [reflexivity|exact IHl]. Qed.
+
+Lemma good_arr ts : forallb wf_tree ts = true -> map norm ts = ts ->
+  good (TArr (-1) BAny ts) (CArr (tvals ts)).
+Proof.
+  intros Hw Hn. unfold good. split; [|split].
+  - cbn [value_of cv]. rewrite map_map. reflexivity.
+  - rewrite wf_arr, Hw. cbn [tree_matches]. rewrite forallb_const_true. reflexivity.
+  - cbn [norm]. rewrite Hn. reflexivity.
+Qed.
+
+Lemma good_obj ms : forallb (fun m => all_bytes (fst (fst m)) && wf_tree (snd m)) ms = true ->
+  map (fun m => (fst m, norm (snd m))) ms = ms ->
+  good (TObj (-1) BAny ms) (CObj (mvals ms)).
+Proof.
+  intros Hw Hn. unfold good. split; [|split].
+  - cbn [value_of cv]. rewrite map_map. reflexivity.
+  - rewrite wf_obj, Hw. cbn [tree_matches]. rewrite forallb_const_true. reflexivity.
+  - cbn [norm]. rewrite Hn. reflexivity.
+Qed.
+
+Lemma jsteps_snoc pf p s b p1 s1 b1 p2 s2 b2 rep :
+  jsteps pf p s b p1 s1 b1 ->
+  b1 <> [] -> (jp_cur p1 =? jFailed) = false ->
+  jstep pf p1 s1 b1 = JS p2 s2 b2 rep jpnil -> (mu p2 b2 < mu p1 b1)%nat ->
+  jsteps pf p s b p2 s2 b2.
+Proof. intros H1 Hne Hnf Hst Hmu. eapply jsteps_trans; [exact H1|]. eapply jsteps_one; eauto. Qed.
+
+Lemma trim_cons_length b c r : trim_left b = c :: r -> (length r < length b)%nat /\ b <> [].
+Proof.
+  intro H. pose proof (trim_left_length b) as L. rewrite H in L. cbn [length] in L.
+  split; [lia|]. intro; subst b. discriminate.
+Qed.
+
+Lemma skip_ws_tail_bytes b c r : all_bytes b = true -> skip_ws b = c :: r -> all_bytes r = true.
+Proof.
+  intros Hb H. apply skip_ws_bytes in Hb. rewrite H in Hb. cbn [all_bytes forallb] in Hb.
+  apply andb_prop in Hb. apply Hb.
+Qed.
+
+Section Sim.
+  Variable pf : bytes -> option Z.
+  Hypothesis pf_ok : forall l z, pf l = Some z -> in_u 64 z = true.
+
+  Definition sim_at (f : nat) : Prop :=
+    forall b v rest, json_ref pf f b = RValue v rest -> all_bytes b = true ->
+    (is_cnum v = false \/ stop_next rest = true) ->
+    forall p s ret, vstate p ret -> clean p -> s_fail s = None ->
+    exists t p', good t v /\ all_bytes rest = true /\
+      jsteps pf p s b p' (sapp s (flatten t)) rest /\ after p p' ret.
+
+  (* closing a container *)
+  Lemma end_step p s b c r ev ret st :
+    trim_left b = c :: r -> jp_states p = ret :: st -> clean p -> s_fail s = None ->
+    (jp_cur p =? jFailed) = false ->
+    jstep pf p s b = end_container p s (c :: r) ev ->
+    exists p', jsteps pf p s b p' (sapp s [ev]) r /\ jp_cur p' = ret /\ jp_states p' = st /\ clean p'.
+  Proof.
+    intros Ht Hst Hc Hs Hnf Hj. destruct (trim_cons_length _ _ _ Ht) as [L Hne].
+    exists (jpop p). split.
+    - eapply jsteps_one; eauto.
+      + rewrite Hj. unfold end_container. rewrite (jvis_ok _ _ Hs). reflexivity.
+      + apply mu_consume; exact L.
+    - unfold jpop, clean. rewrite Hst. jsimpl. destruct Hc. auto.
+  Qed.
+
+  Lemma elems_sim f : sim_at f -> forall g b acc v rest,
+    json_elems (json_ref pf f) g b acc = RValue v rest -> all_bytes b = true ->
+    forall p s ret st, jp_cur p = jArrValue -> jp_states p = ret :: st -> clean p -> s_fail s = None ->
+    exists ts p', v = CArr (rev acc ++ tvals ts) /\ forallb wf_tree ts = true /\ map norm ts = ts /\
+      all_bytes rest = true /\
+      jsteps pf p s b p' (sapp s (flatten_elems ts ++ [EArrEnd])) rest /\
+      jp_cur p' = ret /\ jp_states p' = st /\ clean p'.
+  Proof.
+    intros Hsim. induction g as [|g IH]; intros b acc v rest H Hb p s ret st Hcur Hst Hcl Hs; [discriminate|].
+    cbn [json_elems] in H.
+    destruct (json_ref pf f b) as [v1 r1| | |] eqn:E1; try discriminate.
+    destruct (skip_ws r1) as [|c r'] eqn:E2; [discriminate|].
+    assert (Hc : c = 44 \/ c = 93).
+    { destruct (c =? 44) eqn:C1; [left; lia|]. destruct (c =? 93) eqn:C2; [right; lia|discriminate]. }
+    assert (Hstop : stop_next r1 = true).
+    { apply (skip_ws_stop _ _ _ E2). destruct Hc as [-> | ->]; reflexivity. }
+    destruct (Hsim _ _ _ E1 Hb (or_intror Hstop) p s jArrNext (or_intror (or_intror (conj Hcur eq_refl))) Hcl Hs)
+      as (t1 & p1 & (Gv & Gw & Gn) & Hb1 & Hrun1 & (Hc1 & Hs1 & Hcl1)).
+    assert (Ht : trim_left r1 = c :: r').
+    { apply trim_left_head; [exact E2|]. destruct Hc as [-> | ->]; reflexivity. }
+    destruct (trim_cons_length _ _ _ Ht) as [L1 Hne1].
+    pose proof (skip_ws_tail_bytes _ _ _ Hb1 E2) as Hb'.
+    assert (Hs1' : s_fail (sapp s (flatten t1)) = None) by (rewrite sapp_fail; exact Hs).
+    destruct Hc as [-> | ->].
+    - (* , *)
+      change (44 =? 44) with true in H. cbv iota in H.
+      assert (Hstep : jstep pf p1 (sapp s (flatten t1)) r1 = JS (jset_cur p1 jArrValue) (sapp s (flatten t1)) r' false jpnil).
+      { rewrite jstep_arrnext by exact Hc1. unfold step_arr_value_end. rewrite Ht. reflexivity. }
+      destruct (IH _ _ _ _ H Hb' (jset_cur p1 jArrValue) (sapp s (flatten t1)) ret st eq_refl
+                  ltac:(jsimpl; rewrite Hs1; exact Hst) ltac:(destruct Hcl1; split; assumption) Hs1')
+        as (ts & p' & -> & Hw & Hn & Hbr & Hrun & Hc' & Hs' & Hcl').
+      exists (t1 :: ts), p'. split; [|split; [|split; [|split; [|split]]]]; auto.
+      + cbn [rev tvals map]. rewrite <- app_assoc, Gv. reflexivity.
+      + cbn [forallb]. rewrite Gw, Hw. reflexivity.
+      + cbn [map]. rewrite Gn, Hn. reflexivity.
+      + eapply jsteps_trans; [eapply jsteps_snoc; [exact Hrun1|exact Hne1|rewrite Hc1; reflexivity|exact Hstep|apply mu_consume; exact L1]|].
+        rewrite sapp_app in Hrun. cbn [flatten_elems flat_map]. rewrite <- app_assoc. exact Hrun.
+    - (* ] *)
+      change (93 =? 44) with false in H. change (93 =? 93) with true in H. cbv iota in H. injection H as <- <-.
+      destruct (end_step p1 (sapp s (flatten t1)) r1 93 r' EArrEnd ret st Ht ltac:(rewrite Hs1; exact Hst) Hcl1 Hs1'
+                  ltac:(rewrite Hc1; reflexivity))
+        as (p' & Hrun & Hc' & Hs' & Hcl').
+      { rewrite jstep_arrnext by exact Hc1. unfold step_arr_value_end. rewrite Ht. reflexivity. }
+      exists [t1], p'. split; [|split; [|split; [|split; [|split]]]]; auto.
+      + cbn [rev tvals map]. rewrite Gv. reflexivity.
+      + cbn [forallb]. rewrite Gw. reflexivity.
+      + cbn [map]. rewrite Gn. reflexivity.
+      + eapply jsteps_trans; [exact Hrun1|]. rewrite sapp_app in Hrun.
+        cbn [flatten_elems flat_map]. rewrite app_nil_r. exact Hrun.
+  Qed.
+
+  Lemma members_sim f : sim_at f -> forall g b acc v rest,
+    json_members (json_ref pf f) g b acc = RValue v rest -> all_bytes b = true ->
+    forall p s ret st, (jp_cur p = jDict \/ jp_cur p = jDictNextField) ->
+    jp_states p = ret :: st -> clean p -> s_fail s = None ->
+    exists ms p', v = CObj (rev acc ++ mvals ms) /\
+      forallb (fun m => all_bytes (fst (fst m)) && wf_tree (snd m)) ms = true /\
+      map (fun m => (fst m, norm (snd m))) ms = ms /\
+      all_bytes rest = true /\
+      jsteps pf p s b p' (sapp s (flatten_members ms ++ [EObjEnd])) rest /\
+      jp_cur p' = ret /\ jp_states p' = st /\ clean p'.
+  Proof.
+    intros Hsim. induction g as [|g IH]; intros b acc v rest H Hb p s ret st Hcur Hst Hcl Hs; [discriminate|].
+    cbn [json_members] in H.
+    destruct (skip_ws b) as [|q r0] eqn:E0; [discriminate|].
+    destruct (q =? 34) eqn:Q; [|discriminate]. cbn [negb] in H. assert (q = 34) by lia. subst q.
+    destruct (json_string r0) as [k r1| |] eqn:ES; try discriminate.
+    destruct (skip_ws r1) as [|c r2] eqn:E1; [discriminate|].
+    destruct (c =? 58) eqn:C; [|discriminate]. cbn [negb] in H. assert (c = 58) by lia. subst c.
+    destruct (json_ref pf f r2) as [v1 r3| | |] eqn:EV; try discriminate.
+    destruct (skip_ws r3) as [|d r4] eqn:E3; [discriminate|].
+    assert (Hd : d = 44 \/ d = 125).
+    { destruct (d =? 44) eqn:C1; [left; lia|]. destruct (d =? 125) eqn:C2; [right; lia|discriminate]. }
+    (* bytes *)
+    pose proof (skip_ws_tail_bytes _ _ _ Hb E0) as Hb0.
+    unfold json_string in ES.
+    destruct (json_string_bytes _ _ _ _ _ ES Hb0 eq_refl) as [Hkb Hb1].
+    pose proof (skip_ws_tail_bytes _ _ _ Hb1 E1) as Hb2.
+    (* step 1: the opening quote of the key is seen *)
+    assert (Ht0 : trim_left b = 34 :: r0) by (apply trim_left_head; [exact E0|reflexivity]).
+    assert (Hnf : (jp_cur p =? jFailed) = false) by (destruct Hcur as [-> | ->]; reflexivity).
+    assert (Hstep1 : exists rep, jstep pf p s b = JS (jset_cur p jDictField) s (34 :: r0) rep jpnil).
+    { destruct Hcur as [Hc | Hc].
+      - rewrite jstep_dict by exact Hc. unfold step_dict. rewrite Ht0. eexists. reflexivity.
+      - rewrite jstep_dictnext by exact Hc. unfold step_dict. rewrite Ht0. eexists. reflexivity. }
+    destruct Hstep1 as (rep1 & Hstep1).
+    assert (Hmu1 : (mu (jset_cur p jDictField) (34%Z :: r0) < mu p b)%nat).
+    { pose proof (trim_left_length b) as L. rewrite Ht0 in L. unfold mu, bonus. jsimpl.
+      destruct Hcur as [-> | ->]; cbn; cbn [length] in L; lia. }
+    assert (Hne0 : b <> []) by (intro; subst b; discriminate).
+    (* step 2: the key *)
+    destruct (json_string_inv _ _ _ _ _ ES) as (body & t & fu & Er0 & Ek & Hu & Hsc).
+    cbn [rev app] in Ek. subst t.
+    pose proof (unquote_spec_fuel _ _ _ Hu) as Huq.
+    set (p2 := jset_cur (jset_lit (jset_inesc (jset_cur p jDictField) false) []) jDictFieldValueSep).
+    assert (Hstep2 : jstep pf (jset_cur p jDictField) s (34 :: r0) = JS p2 (sapp s [EKeyRef k]) r1 false jpnil).
+    { rewrite jstep_dictfield by reflexivity. unfold step_dict_key. rewrite Er0.
+      rewrite (do_string_ok _ body r1 k);
+        [|jsimpl; apply Hcl|jsimpl; apply Hcl|intro i; rewrite <- Er0; apply Hsc|exact Huq].
+      rewrite (jvis_ok _ _ Hs). reflexivity. }
+    assert (L2 : (length r1 < length (34%Z :: r0))%nat) by (rewrite Er0; cbn [length]; rewrite app_length; cbn [length]; lia).
+    (* step 3: the colon *)
+    assert (Ht1 : trim_left r1 = 58 :: r2) by (apply trim_left_head; [exact E1|reflexivity]).
+    destruct (trim_cons_length _ _ _ Ht1) as [L3 Hne1].
+    set (p3 := jset_cur p2 jDictFieldValue).
+    assert (Hstep3 : jstep pf p2 (sapp s [EKeyRef k]) r1 = JS p3 (sapp s [EKeyRef k]) r2 false jpnil).
+    { rewrite jstep_dictsep by reflexivity. rewrite Ht1. reflexivity. }
+    (* step 4: the value *)
+    assert (Hstop : stop_next r3 = true).
+    { apply (skip_ws_stop _ _ _ E3). destruct Hd as [-> | ->]; reflexivity. }
+    assert (Hs3 : s_fail (sapp s [EKeyRef k]) = None) by (rewrite sapp_fail; exact Hs).
+    assert (Hcl3 : clean p3) by (split; reflexivity).
+    destruct (Hsim _ _ _ EV Hb2 (or_intror Hstop) p3 (sapp s [EKeyRef k]) jDictFieldStateEnd
+                (or_intror (or_introl (conj eq_refl eq_refl))) Hcl3 Hs3)
+      as (t1 & p4 & (Gv & Gw & Gn) & Hb3 & Hrun4 & (Hc4 & Hs4 & Hcl4)).
+    rewrite sapp_app in Hrun4.
+    assert (Hst4 : jp_states p4 = ret :: st) by (rewrite Hs4; subst p3 p2; jsimpl; exact Hst).
+    (* step 5: , or } *)
+    assert (Ht3 : trim_left r3 = d :: r4).
+    { apply trim_left_head; [exact E3|]. destruct Hd as [-> | ->]; reflexivity. }
+    destruct (trim_cons_length _ _ _ Ht3) as [L5 Hne3].
+    pose proof (skip_ws_tail_bytes _ _ _ Hb3 E3) as Hb4.
+    assert (Hs4' : s_fail (sapp s ([EKeyRef k] ++ flatten t1)) = None) by (rewrite sapp_fail; exact Hs).
+    assert (Hrun14 : jsteps pf p s b p4 (sapp s ([EKeyRef k] ++ flatten t1)) r3).
+    { eapply jsteps_step; [exact Hne0|exact Hnf|exact Hstep1|exact Hmu1|].
+      eapply jsteps_step; [discriminate|reflexivity|exact Hstep2|apply mu_consume; exact L2|].
+      eapply jsteps_step; [exact Hne1|reflexivity|exact Hstep3|apply mu_consume; exact L3|].
+      exact Hrun4. }
+    destruct Hd as [-> | ->].
+    - (* , *)
+      change (44 =? 44) with true in H. cbv iota in H.
+      assert (Hstep5 : jstep pf p4 (sapp s ([EKeyRef k] ++ flatten t1)) r3 =
+                       JS (jset_cur p4 jDictNextField) (sapp s ([EKeyRef k] ++ flatten t1)) r4 false jpnil).
+      { rewrite jstep_dictend by exact Hc4. unfold step_dict_value_end. rewrite Ht3. reflexivity. }
+      destruct (IH _ _ _ _ H Hb4 (jset_cur p4 jDictNextField) (sapp s ([EKeyRef k] ++ flatten t1)) ret st
+                  (or_intror eq_refl) ltac:(jsimpl; exact Hst4) ltac:(destruct Hcl4; split; assumption) Hs4')
+        as (ms & p' & -> & Hw & Hn & Hbr & Hrun & Hc' & Hs' & Hcl').
+      exists ((k, true, t1) :: ms), p'. split; [|split; [|split; [|split; [|split]]]]; auto.
+      + cbn [rev mvals map fst snd]. rewrite <- app_assoc, Gv. reflexivity.
+      + cbn [forallb fst snd]. rewrite Hkb, Gw, Hw. reflexivity.
+      + cbn [map fst snd]. rewrite Gn, Hn. reflexivity.
+      + eapply jsteps_trans; [eapply jsteps_snoc; [exact Hrun14|exact Hne3|rewrite Hc4; reflexivity|exact Hstep5|apply mu_consume; exact L5]|].
+        rewrite sapp_app in Hrun. cbn [flatten_members flat_map key_event].
+        cbn [app] in Hrun |- *. rewrite <- app_assoc. exact Hrun.
+    - (* } *)
+      change (125 =? 44) with false in H. change (125 =? 125) with true in H. cbv iota in H. injection H as <- <-.
+      destruct (end_step p4 (sapp s ([EKeyRef k] ++ flatten t1)) r3 125 r4 EObjEnd ret st Ht3 Hst4 Hcl4 Hs4'
+                  ltac:(rewrite Hc4; reflexivity))
+        as (p' & Hrun & Hc' & Hs' & Hcl').
+      { rewrite jstep_dictend by exact Hc4. unfold step_dict_value_end. rewrite Ht3. reflexivity. }
+      exists [(k, true, t1)], p'. split; [|split; [|split; [|split; [|split]]]]; auto.
+      + cbn [rev mvals map fst snd]. rewrite Gv. reflexivity.
+      + cbn [forallb fst snd]. rewrite Hkb, Gw. reflexivity.
+      + cbn [map fst snd]. rewrite Gn. reflexivity.
+      + eapply jsteps_trans; [exact Hrun14|]. rewrite sapp_app in Hrun.
+        cbn [flatten_members flat_map key_event]. cbn [app] in Hrun |- *. rewrite app_nil_r. exact Hrun.
+  Qed.
+
+  (* a value starts with a byte the parser does not skip *)
+  Lemma lit_value_inv name v0 b v rest : lit_value name v0 b = RValue v rest -> v = v0 /\ b = name ++ rest.
+  Proof.
+    unfold lit_value. destruct (match_lit name b) as [r| |] eqn:E; try discriminate.
+    intro H. injection H as <- <-. split; [reflexivity|]. apply match_lit_ok, E.
+  Qed.
+
+  Theorem sim_all : forall f, sim_at f.
+  Proof.
+    induction f as [|f IH]; intros b v rest H Hb Hend p s ret Hv Hcl Hs; [discriminate|].
+    cbn [json_ref] in H.
+    destruct (skip_ws b) as [|c r] eqn:E0; [discriminate|].
+    pose proof (vstate_ret _ _ Hv) as Hret.
+    pose proof (skip_ws_bytes _ Hb) as Hb0. rewrite E0 in Hb0.
+    destruct (c =? 110) eqn:C1.
+    { (* null *)
+      destruct (lit_value_inv _ _ _ _ _ H) as [-> Er].
+      assert (Ht : trim_left b = kw_null ++ rest).
+      { rewrite <- Er. apply trim_left_head; [exact E0|]. unfold is_space. lia. }
+      destruct (sv_null pf p s b ret Hret Hs Hcl rest Ht) as (p' & Hst & Haf).
+      exists (TVal SNil false), p'. split; [repeat split|]. split.
+      { rewrite Er, all_bytes_app in Hb0. apply andb_prop in Hb0. apply Hb0. }
+      split; [|exact Haf]. apply (vstep _ _ _ _ _ _ _ _ _ Hv Hst). apply (consume _ _ _ Ht). discriminate. }
+    destruct (c =? 116) eqn:C2.
+    { (* true *)
+      destruct (lit_value_inv _ _ _ _ _ H) as [-> Er].
+      assert (Ht : trim_left b = kw_true ++ rest).
+      { rewrite <- Er. apply trim_left_head; [exact E0|]. unfold is_space. lia. }
+      destruct (sv_true pf p s b ret Hret Hs Hcl rest Ht) as (p' & Hst & Haf).
+      exists (TVal (SBool true) false), p'. split; [repeat split|]. split.
+      { rewrite Er, all_bytes_app in Hb0. apply andb_prop in Hb0. apply Hb0. }
+      split; [|exact Haf]. apply (vstep _ _ _ _ _ _ _ _ _ Hv Hst). apply (consume _ _ _ Ht). discriminate. }
+    destruct (c =? 102) eqn:C3.
+    { (* false *)
+      destruct (lit_value_inv _ _ _ _ _ H) as [-> Er].
+      assert (Ht : trim_left b = kw_false ++ rest).
+      { rewrite <- Er. apply trim_left_head; [exact E0|]. unfold is_space. lia. }
+      destruct (sv_false pf p s b ret Hret Hs Hcl rest Ht) as (p' & Hst & Haf).
+      exists (TVal (SBool false) false), p'. split; [repeat split|]. split.
+      { rewrite Er, all_bytes_app in Hb0. apply andb_prop in Hb0. apply Hb0. }
+      split; [|exact Haf]. apply (vstep _ _ _ _ _ _ _ _ _ Hv Hst). apply (consume _ _ _ Ht). discriminate. }
+    assert (Hbr : all_bytes r = true) by (cbn [all_bytes forallb] in Hb0; apply andb_prop in Hb0; apply Hb0).
+    destruct (c =? 34) eqn:C4.
+    { (* string *)
+      assert (c = 34) by lia. subst c.
+      destruct (json_string r) as [str r1| |] eqn:ES; try discriminate. injection H as <- Hr1. subst r1.
+      unfold json_string in ES.
+      destruct (json_string_bytes _ _ _ _ _ ES Hbr eq_refl) as [Hsb Hb1].
+      destruct (json_string_inv _ _ _ _ _ ES) as (body & t & fu & Er & Ek & Hu & Hsc).
+      cbn [rev app] in Ek. subst t.
+      assert (Ht : trim_left b = 34 :: body ++ 34 :: rest).
+      { rewrite <- Er. apply trim_left_head; [exact E0|reflexivity]. }
+      destruct (sv_str pf p s b ret Hret Hs body rest str Ht) as (p' & Hst & Haf).
+      { intro i. rewrite <- Er. apply Hsc. }
+      { exact (unquote_spec_fuel _ _ _ Hu). }
+      exists (TVal (SStr str) true), p'. split; [split; [reflexivity|split; [exact Hsb|reflexivity]]|].
+      split; [exact Hb1|]. split; [|exact Haf].
+      apply (vstep _ _ _ _ _ _ _ _ _ Hv Hst).
+      replace (34 :: body ++ 34 :: rest) with ((34 :: body ++ [34]) ++ rest) in Ht
+        by (cbn [app]; rewrite <- app_assoc; reflexivity).
+      apply (consume _ _ _ Ht). discriminate. }
+    destruct (c =? 91) eqn:C5.
+    { (* array *)
+      assert (c = 91) by lia. subst c.
+      assert (Ht : trim_left b = 91 :: r) by (apply trim_left_head; [exact E0|reflexivity]).
+      destruct (trim_cons_length _ _ _ Ht) as [L0 Hne0].
+      pose proof (sv_arr pf p s b ret Hs r Ht) as Hst.
+      set (pa := jpush (jset_cur p ret) jArr) in *.
+      set (sa := sapp s [EArrStart (-1) BAny]) in *.
+      assert (Hsa : s_fail sa = None) by (subst sa; rewrite sapp_fail; exact Hs).
+      assert (Hca : jp_cur pa = jArr) by reflexivity.
+      assert (Hsta : jp_states pa = ret :: jp_states p) by (subst pa; cbn [jpush jp_states jset_cur jp_cur]; rewrite Hret; reflexivity).
+      assert (Hcla : clean pa) by (destruct Hcl; split; assumption).
+      pose proof (vstep _ _ _ _ _ _ _ _ _ Hv Hst L0) as Hrun0.
+      destruct (skip_ws r) as [|d r'] eqn:E1; [discriminate|].
+      pose proof (skip_ws_tail_bytes _ _ _ Hbr E1) as Hb'.
+      destruct (d =? 93) eqn:D.
+      - (* [] *)
+        injection H as <- <-. assert (d = 93) by lia. subst d.
+        assert (Ht1 : trim_left r = 93 :: r') by (apply trim_left_head; [exact E1|reflexivity]).
+        destruct (end_step pa sa r 93 r' EArrEnd ret (jp_states p) Ht1 Hsta Hcla Hsa eq_refl)
+          as (p' & Hrun & Hc' & Hs' & Hcl').
+        { rewrite jstep_arr by exact Hca. unfold step_array. rewrite Ht1. reflexivity. }
+        exists (TArr (-1) BAny []), p'. split; [apply (good_arr []); reflexivity|].
+        split; [exact Hb'|]. split; [|split; [exact Hc'|split; [exact Hs'|exact Hcl']]].
+        eapply jsteps_trans; [exact Hrun0|]. subst sa. rewrite sapp_app in Hrun. exact Hrun.
+      - (* elements *)
+        assert (Hhead : exists v1 r1, json_ref pf f r = RValue v1 r1).
+        { destruct f as [|f']; [discriminate|]. cbn [json_elems] in H.
+          destruct (json_ref pf (S f') r) as [v1 r1| | |]; try discriminate. eauto. }
+        destruct Hhead as (v1 & r1 & Ehead).
+        assert (Hdsp : is_space d = false).
+        { destruct f as [|f']; [discriminate|]. cbn [json_ref] in Ehead. rewrite E1 in Ehead.
+          unfold is_space.
+          destruct (d =? 110) eqn:X1; [lia|]. destruct (d =? 116) eqn:X2; [lia|].
+          destruct (d =? 102) eqn:X3; [lia|]. destruct (d =? 34) eqn:X4; [lia|].
+          destruct (d =? 91) eqn:X5; [lia|]. destruct (d =? 123) eqn:X6; [lia|].
+          destruct ((d =? 45) || is_dig d) eqn:X7; [unfold is_dig in X7; lia|discriminate]. }
+        assert (Ht1 : trim_left r = d :: r') by (apply trim_left_head; [exact E1|exact Hdsp]).
+        set (pv := jset_cur pa jArrValue).
+        assert (Hstep : jstep pf pa sa r = JS pv sa (d :: r') false jpnil).
+        { rewrite jstep_arr by exact Hca. unfold step_array. rewrite Ht1, D. reflexivity. }
+        assert (Hmu : (mu pv (d :: r') < mu pa r)%nat).
+        { pose proof (trim_left_length r) as L. rewrite Ht1 in L. unfold mu, bonus. subst pv pa. jsimpl.
+          cbn. cbn [length] in L. lia. }
+        assert (Hner : r <> []) by (intro; subst r; discriminate).
+        assert (Hdr : json_elems (json_ref pf f) f (d :: r') [] = RValue v rest).
+        { (* json_ref skips ws itself: the same result from the trimmed input *)
+          destruct f as [|f']; [discriminate|]. cbn [json_elems] in H |- *.
+          assert (Esame : json_ref pf (S f') (d :: r') = json_ref pf (S f') r).
+          { cbn [json_ref]. rewrite E1. cbn [skip_ws].
+            replace (is_ws d) with false; [reflexivity|].
+            destruct (is_ws d) eqn:W; [|reflexivity]. apply is_ws_is_space in W. congruence. }
+          rewrite Esame. exact H. }
+        destruct (elems_sim f IH _ _ _ _ _ Hdr ltac:(cbn [all_bytes forallb]; apply skip_ws_bytes in Hbr; rewrite E1 in Hbr; exact Hbr)
+                    pv sa ret (jp_states p) eq_refl Hsta Hcla Hsa)
+          as (ts & p' & -> & Hw & Hn & Hbrest & Hrun & Hc' & Hs' & Hcl').
+        exists (TArr (-1) BAny ts), p'. split; [apply good_arr; assumption|].
+        split; [exact Hbrest|]. split; [|split; [exact Hc'|split; [exact Hs'|exact Hcl']]].
+        eapply jsteps_trans; [exact Hrun0|].
+        eapply jsteps_step; [exact Hner|reflexivity|exact Hstep|exact Hmu|].
+        subst sa. rewrite sapp_app in Hrun. rewrite flatten_arr. exact Hrun. }
+    destruct (c =? 123) eqn:C6.
+    { (* object *)
+      assert (c = 123) by lia. subst c.
+      assert (Ht : trim_left b = 123 :: r) by (apply trim_left_head; [exact E0|reflexivity]).
+      destruct (trim_cons_length _ _ _ Ht) as [L0 Hne0].
+      pose proof (sv_obj pf p s b ret Hs r Ht) as Hst.
+      set (pa := jpush (jset_cur p ret) jDict) in *.
+      set (sa := sapp s [EObjStart (-1) BAny]) in *.
+      assert (Hsa : s_fail sa = None) by (subst sa; rewrite sapp_fail; exact Hs).
+      assert (Hca : jp_cur pa = jDict) by reflexivity.
+      assert (Hsta : jp_states pa = ret :: jp_states p) by (subst pa; cbn [jpush jp_states jset_cur jp_cur]; rewrite Hret; reflexivity).
+      assert (Hcla : clean pa) by (destruct Hcl; split; assumption).
+      pose proof (vstep _ _ _ _ _ _ _ _ _ Hv Hst L0) as Hrun0.
+      destruct (skip_ws r) as [|d r'] eqn:E1; [discriminate|].
+      pose proof (skip_ws_tail_bytes _ _ _ Hbr E1) as Hb'.
+      destruct (d =? 125) eqn:D.
+      - (* {} *)
+        injection H as <- <-. assert (d = 125) by lia. subst d.
+        assert (Ht1 : trim_left r = 125 :: r') by (apply trim_left_head; [exact E1|reflexivity]).
+        destruct (end_step pa sa r 125 r' EObjEnd ret (jp_states p) Ht1 Hsta Hcla Hsa eq_refl)
+          as (p' & Hrun & Hc' & Hs' & Hcl').
+        { rewrite jstep_dict by exact Hca. unfold step_dict. rewrite Ht1. reflexivity. }
+        exists (TObj (-1) BAny []), p'. split; [apply (good_obj []); reflexivity|].
+        split; [exact Hb'|]. split; [|split; [exact Hc'|split; [exact Hs'|exact Hcl']]].
+        eapply jsteps_trans; [exact Hrun0|]. subst sa. rewrite sapp_app in Hrun. exact Hrun.
+      - (* members *)
+        destruct (members_sim f IH _ _ _ _ _ H Hbr pa sa ret (jp_states p) (or_introl Hca) Hsta Hcla Hsa)
+          as (ms & p' & -> & Hw & Hn & Hbrest & Hrun & Hc' & Hs' & Hcl').
+        exists (TObj (-1) BAny ms), p'. split; [apply good_obj; assumption|].
+        split; [exact Hbrest|]. split; [|split; [exact Hc'|split; [exact Hs'|exact Hcl']]].
+        eapply jsteps_trans; [exact Hrun0|].
+        subst sa. rewrite sapp_app in Hrun. rewrite flatten_obj. exact Hrun. }
+    destruct ((c =? 45) || is_dig c) eqn:C7; [|discriminate].
+    (* number *)
+    destruct (json_number (c :: r)) as [lit isint r1| |] eqn:EN; try discriminate.
+    destruct (json_num_value pf lit isint) as [n|] eqn:EV; [|discriminate]. injection H as <- Hr1. subst r1.
+    destruct Hend as [Hend|Hend]; [discriminate|].
+    destruct (json_number_inv _ _ _ _ EN) as (Er & Hns & Hde & Hshape).
+    assert (Ht : trim_left b = c :: r).
+    { apply trim_left_head; [exact E0|]. unfold is_space. unfold is_dig in C7. lia. }
+    pose proof (sv_num_head pf p s b ret c r Ht C7) as Hst.
+    set (pn := jset_isdbl (jpush (jset_lit (jset_isdbl (jset_cur p ret) false) []) jNumber) false) in *.
+    rewrite Er in Hst. rewrite (step_number_done pf pn s lit rest eq_refl eq_refl Hns Hend) in Hst.
+    destruct (report_ok pf s lit isint n pf_ok EV Hs Hshape) as (k & z & Hrep & Hcn & Hok).
+    rewrite Hde, Hrep in Hst.
+    exists (TVal (SNum k z) false), (jpop (jset_lit (jset_isdbl pn (negb isint)) [])).
+    split; [split; [cbn [value_of scalar_value cv]; rewrite Hcn; reflexivity|split; [exact Hok|reflexivity]]|].
+    split; [rewrite Er, all_bytes_app in Hb0; apply andb_prop in Hb0; apply Hb0|].
+    split.
+    - apply (vstep _ _ _ _ _ _ _ _ _ Hv Hst). rewrite Er in Ht. apply (consume _ _ _ Ht).
+      intro; subst lit. cbn [app] in Er. rewrite <- Er in Hend. cbn [stop_next] in Hend.
+      unfold is_stop in Hend. unfold is_dig in C7. lia.
+    - unfold after, clean, jpop. subst pn. jsimpl. rewrite Hret. jsimpl. destruct Hcl. auto.
+  Qed.
+End Sim.
+Print Assumptions sim_all.
+
+(* ---------- 4.7 whole documents ---------- *)
+Lemma json_elems_shape value g : forall b acc v rest,
+  json_elems value g b acc = RValue v rest -> is_cnum v = false.
+Proof.
+  induction g as [|g IH]; intros b acc v rest H; [discriminate|]. cbn [json_elems] in H.
+  destruct (value b) as [v1 r1| | |]; try discriminate.
+  destruct (skip_ws r1) as [|c r']; [discriminate|].
+  destruct (c =? 44); [exact (IH _ _ _ _ H)|].
+  destruct (c =? 93); [|discriminate]. injection H as <- _. reflexivity.
+Qed.
+
+Lemma json_members_shape value g : forall b acc v rest,
+  json_members value g b acc = RValue v rest -> is_cnum v = false.
+Proof.
+  induction g as [|g IH]; intros b acc v rest H; [discriminate|]. cbn [json_members] in H.
+  destruct (skip_ws b) as [|q r0]; [discriminate|].
+  destruct (negb (q =? 34)); [discriminate|].
+  destruct (json_string r0) as [k r1| |]; try discriminate.
+  destruct (skip_ws r1) as [|c r2]; [discriminate|].
+  destruct (negb (c =? 58)); [discriminate|].
+  destruct (value r2) as [v1 r3| | |]; try discriminate.
+  destruct (skip_ws r3) as [|d r4]; [discriminate|].
+  destruct (d =? 44); [exact (IH _ _ _ _ H)|].
+  destruct (d =? 125); [|discriminate]. injection H as <- _. reflexivity.
+Qed.
+
+Lemma json_ref_num_inv pf f b n rest : json_ref pf (S f) b = RValue (CNum n) rest ->
+  exists c r lit isint, skip_ws b = c :: r /\ (c =? 45) || is_dig c = true /\
+    json_number (c :: r) = NumOk lit isint rest /\ json_num_value pf lit isint = Some n.
+Proof.
+  intro H. cbn [json_ref] in H.
+  destruct (skip_ws b) as [|c r] eqn:E0; [discriminate|].
+  destruct (c =? 110). { apply lit_value_inv in H. destruct H; discriminate. }
+  destruct (c =? 116). { apply lit_value_inv in H. destruct H; discriminate. }
+  destruct (c =? 102). { apply lit_value_inv in H. destruct H; discriminate. }
+  destruct (c =? 34). { destruct (json_string r); discriminate. }
+  destruct (c =? 91).
+  { destruct (skip_ws r) as [|d r']; [discriminate|]. destruct (d =? 93); [discriminate|].
+    apply json_elems_shape in H. discriminate. }
+  destruct (c =? 123).
+  { destruct (skip_ws r) as [|d r']; [discriminate|]. destruct (d =? 125); [discriminate|].
+    apply json_members_shape in H. discriminate. }
+  destruct ((c =? 45) || is_dig c) eqn:C7; [|discriminate].
+  destruct (json_number (c :: r)) as [lit isint r1| |] eqn:EN; try discriminate.
+  destruct (json_num_value pf lit isint) as [n'|] eqn:EV; [|discriminate].
+  injection H as <- <-. exists c, r, lit, isint. auto.
+Qed.
+
+Lemma with_final_idle pf p s : jp_cur p = jStart -> jp_states p = [] ->
+  with_final pf p s = Ok (p, s, jpnil).
+Proof.
+  intros Hc Hs. unfold with_final, jfinalize. rewrite Hc.
+  change (jStart =? jNumber) with false. cbv iota beta. rewrite Hs. reflexivity.
+Qed.
+
+Lemma s_log_sink0 evs : s_log (sapp (sink0 None) evs) = evs.
+Proof. rewrite sapp_log. reflexivity. Qed.
+
+(* C04, acceptance: every document of the RFC 8259 grammar (as read by the
+   reference decoder) is accepted by Parser.Parse, and the events delivered
+   to the visitor form one contract-conforming value that is the reference
+   value: strings unescaped, integers exact, floats through the same
+   oracle, members and elements in document order. *)
+Theorem C04_accept_events pf b v :
+  (forall l z, pf l = Some z -> in_u 64 z = true) ->
+  json_decode pf b = RValue v [] -> all_bytes b = true ->
+  exists t p, jrun_parse pf None b = Ok (flatten t, jpnil, p) /\
+    norm t = t /\ wf_tree t = true /\ cv (value_of t) = v.
+Proof.
+  intros pf_ok H Hb. unfold json_decode in H.
+  destruct (json_ref pf (S (length b)) b) as [v0 r| | |] eqn:EJ; try discriminate.
+  destruct (skip_ws r) as [|x r''] eqn:ER; [|discriminate]. injection H as ->.
+  assert (Hcase : (is_cnum v = false \/ stop_next r = true) \/ (is_cnum v = true /\ r = [])).
+  { destruct r as [|y r0]; [destruct (is_cnum v); auto|].
+    left. right. cbn [skip_ws] in ER. cbn [stop_next].
+    destruct (is_ws y) eqn:W; [apply is_ws_is_stop, W|discriminate]. }
+  destruct Hcase as [Hend | [Hnum ->]].
+  - (* the value is delimited *)
+    destruct (sim_all pf pf_ok _ _ _ _ EJ Hb Hend jparser0 (sink0 None) jStart
+                (or_introl (conj eq_refl eq_refl)) (conj eq_refl eq_refl) eq_refl)
+      as (t & p' & (Gv & Gw & Gn) & Hbr & Hrun & (Hc & Hst & Hcl)).
+    assert (Hrun' : jsteps pf jparser0 (sink0 None) b p' (sapp (sink0 None) (flatten t)) []).
+    { destruct r as [|y r0]; [exact Hrun|].
+      eapply jsteps_snoc; [exact Hrun|discriminate|rewrite Hc; reflexivity| |apply mu_consume; cbn [length]; lia].
+      rewrite jstep_start by exact Hc. unfold step_value. rewrite trim_left_skip_ws, ER. reflexivity. }
+    exists t, p'. rewrite (jrun_parse_steps _ _ _ _ Hrun').
+    rewrite with_final_idle by assumption. rewrite s_log_sink0. auto.
+  - (* a number that runs to the end of the input: delivered by finalize *)
+    destruct v as [| | |n| |]; try discriminate.
+    destruct (json_ref_num_inv _ _ _ _ _ EJ) as (c & r0 & lit & isint & E0 & C7 & EN & EV).
+    destruct (json_number_inv _ _ _ _ EN) as (Er & Hns & Hde & Hshape).
+    rewrite app_nil_r in Er.
+    assert (Ht : trim_left b = c :: r0).
+    { apply trim_left_head; [exact E0|]. unfold is_space. unfold is_dig in C7. lia. }
+    destruct (trim_cons_length _ _ _ Ht) as [L0 Hne0].
+    pose proof (sv_num_head pf jparser0 (sink0 None) b jStart c r0 Ht C7) as Hst.
+    set (pn := jset_isdbl (jpush (jset_lit (jset_isdbl (jset_cur jparser0 jStart) false) []) jNumber) false) in *.
+    rewrite Er, (step_number_eof pf pn (sink0 None) lit eq_refl eq_refl Hns) in Hst.
+    assert (Hrun : jsteps pf jparser0 (sink0 None) b (jset_lit (jset_isdbl pn (has_de lit)) lit) (sink0 None) []).
+    { apply (vstep _ _ _ _ _ _ _ _ _ (or_introl (conj eq_refl eq_refl) : vstate jparser0 jStart) Hst). cbn [length]. lia. }
+    destruct (report_ok pf (sink0 None) lit isint n pf_ok EV eq_refl Hshape) as (k & z & Hrep & Hcn & Hok).
+    exists (TVal (SNum k z) false), (jpop (jset_lit (jset_isdbl pn (has_de lit)) lit)).
+    rewrite (jrun_parse_steps _ _ _ _ Hrun).
+    unfold with_final, jfinalize. subst pn. unfold jparser0. jsimpl.
+    change (jNumber =? jNumber) with true. cbv iota. rewrite Hde, Hrep.
+    change (jisnil jpnil) with true. cbv iota. change (jStart =? jFailed) with false. cbv iota. jsimpl.
+    split; [reflexivity|]. split; [reflexivity|]. split; [exact Hok|].
+    cbn [value_of scalar_value cv]. rewrite Hcn. reflexivity.
+Qed.
+Print Assumptions C04_accept_events.
+
+Theorem C04_accept pf b v :
+  (forall l z, pf l = Some z -> in_u 64 z = true) ->
+  json_decode pf b = RValue v [] -> all_bytes b = true ->
+  exists evs t p, jrun_parse pf None b = Ok (evs, jpnil, p) /\
+    stream_tree evs = Some t /\ wf_tree t = true /\ cv (value_of t) = v.
+Proof.
+  intros pf_ok H Hb.
+  destruct (C04_accept_events pf b v pf_ok H Hb) as (t & p & Hrun & Hn & Hw & Hv).
+  exists (flatten t), t, p. split; [exact Hrun|]. split; [|auto].
+  rewrite stream_tree_flatten, Hn. reflexivity.
+Qed.
+Print Assumptions C04_accept.
+
+(* ---------- 4.8 numbers: the report is the reference value or an error ---------- *)
+(* C04_number: for every literal of the RFC number grammar, reportNumber
+   (called with the parser's own classification of the literal) delivers the
+   exact integer, or the oracle's float for the same bytes, or an error;
+   never another number. *)
+Theorem C04_number pf s lit isint :
+  json_number lit = NumOk lit isint [] ->
+  report_number pf s lit (has_de lit) =
+  match json_num_value pf lit isint with
+  | Some (CInt z) => Some (jvis s (EVal (SNum (int_kind z) z)))
+  | Some (CF64 bits) => Some (jvis s (EVal (SNum KFloat64 bits)))
+  | _ => Some (s, jeGeneric)
+  end.
+Proof.
+  intro H. destruct (json_number_inv _ _ _ _ H) as (_ & _ & Hde & Hshape). rewrite Hde.
+  destruct isint; cbn [negb].
+  - rewrite (report_number_int pf s lit (Hshape eq_refl)).
+    destruct (json_num_value pf lit true) as [[z|x|x]|] eqn:E; try reflexivity;
+      unfold json_num_value in E; destruct (_ && _); discriminate.
+  - rewrite report_number_float.
+    destruct (json_num_value pf lit false) as [[z|x|x]|] eqn:E; try reflexivity;
+      unfold json_num_value in E; destruct (pf lit); discriminate.
+Qed.
+Print Assumptions C04_number.
+
+(* ---------- 4.9 streams of values ---------- *)
+Lemma skip_ws_idem b : skip_ws (skip_ws b) = skip_ws b.
+Proof.
+  induction b as [|c r IH]; [reflexivity|]. cbn [skip_ws]. destruct (is_ws c) eqn:E; [exact IH|].
+  cbn [skip_ws]. rewrite E. reflexivity.
+Qed.
+
+Lemma json_ref_skip_ws pf f b : json_ref pf f (skip_ws b) = json_ref pf f b.
+Proof. destruct f as [|f]; [reflexivity|]. cbn [json_ref]. rewrite skip_ws_idem. reflexivity. Qed.
+
+Lemma skip_ws_length b : (length (skip_ws b) <= length b)%nat.
+Proof. induction b as [|c r IH]; [cbn; lia|]. cbn [skip_ws]. destruct (is_ws c); cbn [length] in *; lia. Qed.
+
+Section Stream.
+  Variable pf : bytes -> option Z.
+  Hypothesis pf_ok : forall l z, pf l = Some z -> in_u 64 z = true.
+
+  (* a number that runs to the end of the input is delivered by finalize *)
+  Lemma num_eof_sim f b n p s :
+    json_ref pf (S f) b = RValue (CNum n) [] ->
+    jp_cur p = jStart -> jp_states p = [] -> clean p -> s_fail s = None ->
+    exists k z pa pb, jsteps pf p s b pa s [] /\
+      with_final pf pa s = Ok (pb, sapp s [EVal (SNum k z)], jpnil) /\
+      canon_num k z = n /\ nkind_ok k z = true.
+  Proof.
+    intros EJ Hc Hst Hcl Hs.
+    destruct (json_ref_num_inv _ _ _ _ _ EJ) as (c & r0 & lit & isint & E0 & C7 & EN & EV).
+    destruct (json_number_inv _ _ _ _ EN) as (Er & Hns & Hde & Hshape).
+    rewrite app_nil_r in Er.
+    assert (Ht : trim_left b = c :: r0).
+    { apply trim_left_head; [exact E0|]. unfold is_space. unfold is_dig in C7. lia. }
+    destruct (trim_cons_length _ _ _ Ht) as [L0 Hne0].
+    pose proof (sv_num_head pf p s b jStart c r0 Ht C7) as Hsv.
+    set (pn := jset_isdbl (jpush (jset_lit (jset_isdbl (jset_cur p jStart) false) []) jNumber) false) in *.
+    rewrite Er, (step_number_eof pf pn s lit eq_refl eq_refl Hns) in Hsv.
+    destruct (report_ok pf s lit isint n pf_ok EV Hs Hshape) as (k & z & Hrep & Hcn & Hok).
+    exists k, z, (jset_lit (jset_isdbl pn (has_de lit)) lit), (jpop (jset_lit (jset_isdbl pn (has_de lit)) lit)).
+    split; [|split; [|split; assumption]].
+    - apply (vstep _ _ _ _ _ _ _ _ _ (or_introl (conj Hc eq_refl) : vstate p jStart) Hsv). cbn [length]. lia.
+    - set (pa := jset_lit (jset_isdbl pn (has_de lit)) lit).
+      assert (Hpop : jp_states (jpop pa) = [] /\ jp_cur (jpop pa) = jStart).
+      { subst pa pn. unfold jpop, jpush. jsimpl. change (jStart =? jFailed) with false. cbv iota. jsimpl.
+        rewrite Hst. split; reflexivity. }
+      destruct Hpop as [Hp1 Hp2].
+      unfold with_final, jfinalize.
+      change (jp_cur pa) with jNumber. change (jp_lit pa) with lit. change (jp_isdbl pa) with (has_de lit).
+      change (jNumber =? jNumber) with true. cbv iota. rewrite Hde, Hrep.
+      change (jisnil jpnil) with true. cbv iota beta. cbn [negb]. rewrite Hp1, Hp2. reflexivity.
+  Qed.
+
+  Lemma stream_sim : forall fuel b vs, json_decode_all pf fuel b = Some vs -> all_bytes b = true ->
+    forall p s, jp_cur p = jStart -> jp_states p = [] -> clean p -> s_fail s = None ->
+    exists ts pa sa pb, jsteps pf p s b pa sa [] /\
+      with_final pf pa sa = Ok (pb, sapp s (flat_map flatten ts), jpnil) /\
+      tvals ts = vs /\ forallb wf_tree ts = true /\ map norm ts = ts.
+  Proof.
+    induction fuel as [|fuel IH]; intros b vs H Hb p s Hc Hst Hcl Hs; [discriminate|].
+    cbn [json_decode_all] in H.
+    destruct (skip_ws b) as [|c r] eqn:E0.
+    - (* only whitespace is left *)
+      injection H as <-. exists [], p, s, p. cbn [flat_map]. rewrite sapp_nil.
+      split; [|split; [apply with_final_idle; assumption|repeat split]].
+      destruct b as [|y b0]; [apply jsteps_refl|].
+      eapply jsteps_one; [discriminate|rewrite Hc; reflexivity| |apply mu_consume; cbn [length]; lia].
+      rewrite jstep_start by exact Hc. unfold step_value. rewrite trim_left_skip_ws, E0. reflexivity.
+    - destruct (json_ref pf (S (length (c :: r))) (c :: r)) as [v rest| | |] eqn:EJ; try discriminate.
+      rewrite <- E0, json_ref_skip_ws in EJ.
+      destruct (match rest with [] => true | x :: _ => is_ws x end) eqn:Sep; [|discriminate].
+      destruct (json_decode_all pf fuel rest) as [vs'|] eqn:ER; [|discriminate]. injection H as <-.
+      assert (Hcase : (is_cnum v = false \/ stop_next rest = true) \/ (is_cnum v = true /\ rest = [])).
+      { destruct rest as [|y r0]; [destruct (is_cnum v); auto|].
+        left. right. cbn [stop_next]. apply is_ws_is_stop, Sep. }
+      destruct Hcase as [Hend | [Hnum ->]].
+      + destruct (sim_all pf pf_ok _ _ _ _ EJ Hb Hend p s jStart
+                    (or_introl (conj Hc eq_refl)) Hcl Hs)
+          as (t & p1 & (Gv & Gw & Gn) & Hbr & Hrun & (Hc1 & Hst1 & Hcl1)).
+        destruct (IH _ _ ER Hbr p1 (sapp s (flatten t)) Hc1 ltac:(rewrite Hst1; exact Hst) Hcl1
+                    ltac:(rewrite sapp_fail; exact Hs))
+          as (ts & pa & sa & pb & Hrun' & Hfin & Hvs & Hw & Hn).
+        exists (t :: ts), pa, sa, pb.
+        split; [eapply jsteps_trans; eassumption|].
+        split; [rewrite Hfin, sapp_app; reflexivity|].
+        split; [cbn [tvals map]; rewrite Gv; fold (tvals ts); rewrite Hvs; reflexivity|].
+        split; [cbn [forallb]; rewrite Gw, Hw; reflexivity|].
+        cbn [map]. rewrite Gn, Hn. reflexivity.
+      + destruct v as [| | |n| |]; try discriminate.
+        destruct fuel as [|fuel']; [discriminate|]. cbn in ER. injection ER as <-.
+        destruct (num_eof_sim _ _ _ p s EJ Hc Hst Hcl Hs) as (k & z & pa & pb & Hrun & Hfin & Hcn & Hok).
+        exists [TVal (SNum k z) false], pa, s, pb.
+        split; [exact Hrun|]. split; [exact Hfin|].
+        split; [cbn [tvals map value_of scalar_value cv]; rewrite Hcn; reflexivity|].
+        split; [cbn [forallb wf_tree scalar_ok]; rewrite Hok; reflexivity|reflexivity].
+  Qed.
+End Stream.
+
+(* C04 for a stream of whitespace-separated documents: Parser.Parse delivers
+   the values one after the other *)
+Theorem C04_accept_stream pf fuel b vs :
+  (forall l z, pf l = Some z -> in_u 64 z = true) ->
+  json_decode_all pf fuel b = Some vs -> all_bytes b = true ->
+  exists ts p, jrun_parse pf None b = Ok (flat_map flatten ts, jpnil, p) /\
+    map norm ts = ts /\ forallb wf_tree ts = true /\ map (fun t => cv (value_of t)) ts = vs.
+Proof.
+  intros pf_ok H Hb.
+  destruct (stream_sim pf pf_ok _ _ _ H Hb jparser0 (sink0 None) eq_refl eq_refl (conj eq_refl eq_refl) eq_refl)
+    as (ts & pa & sa & pb & Hrun & Hfin & Hvs & Hw & Hn).
+  exists ts, pb. rewrite (jrun_parse_steps _ _ _ _ Hrun), Hfin, s_log_sink0. auto.
+Qed.
+Print Assumptions C04_accept_stream.
